@@ -902,7 +902,9 @@ Proof.
     { apply in_node. right. right. exact Ppred. }
     destruct (IHc a b i pp pred HRb NDr0) as [IH1 IH2]; [discriminate|exact HP| |exact Kpp|exact Kpred|].
     { intros j Hj. apply K. apply in_node. right. right. exact Hj. }
-    cbn [split_max]. destruct (split_max a b (BN c1 c2 c3)) as [r' m]. cbn [fst snd] in *.
+    change (split_max l i (BN a b (BN c1 c2 c3)))
+      with (let (r', m) := split_max a b (BN c1 c2 c3) in (BN l i r', m)).
+    destruct (split_max a b (BN c1 c2 c3)) as [r' m]. cbn [fst snd] in *.
     split; [|exact IH2].
     assert (keeps ds ds' i) as Ki.
     { apply K; [apply in_node; right; left; reflexivity| |]; intros ->; apply Hir; assumption. }
@@ -914,3 +916,1748 @@ Proof.
       * intros ->. exact (Hlr _ Hj Ppred').
     + rewrite Eb. exact IH1.
 Qed.
+
+Lemma keeps_modN : forall ds k f j,
+  (forall e, d_left (f e) = d_left e /\ d_right (f e) = d_right e) -> keeps ds (modN ds k f) j.
+Proof.
+  intros ds k f j Hf e He. rewrite nthN_modN. destruct (k =? j).
+  - rewrite He. cbn [option_map]. exists (f e). split; [reflexivity|apply Hf].
+  - exists e. auto.
+Qed.
+
+Lemma keeps_recolor : forall ds c j, keeps ds (recolor_black ds c) j.
+Proof.
+  intros. unfold recolor_black. destruct (c =? NO_STREAM); [apply keeps_eq; reflexivity|].
+  apply keeps_modN. intros e. split; reflexivity.
+Qed.
+
+(* the subtree of x after the splice *)
+Lemma splice_rep : forall ds x e l r pp pred,
+  nthN ds x = Some e -> Rep ds (d_left e) l -> Rep ds (d_right e) r -> NoDup (ids (BN l x r)) ->
+  (d_left e <> NO_STREAM -> d_right e <> NO_STREAM ->
+   exists fuel, find_pred fuel ds x (d_left e) = Ok (pp, pred)) ->
+  Rep (fst (splice_tbl ds x e pp pred)) (snd (splice_tbl ds x e pp pred)) (join l r) /\
+  (forall j, ~ In j (ids l ++ ids r) -> keeps ds (fst (splice_tbl ds x e pp pred)) j).
+Proof.
+  intros ds x e l r pp pred He HL HR ND Hfp.
+  apply nodup_node in ND. destruct ND as (NDl & NDr & Hxl & Hxr & Hlr).
+  unfold splice_tbl. cbv zeta.
+  destruct l as [|ll li lr].
+  - cbn [Rep] in HL. rewrite HL, N.eqb_refl. cbn [orb fst snd join].
+    split; [|intros; apply keeps_recolor].
+    eapply rep_frame_links; [exact HR|]. intros; apply keeps_recolor.
+  - pose proof HL as HL0. destruct HL as (El & Hline & el & Hel & HLl & HLr).
+    rewrite El in *.
+    destruct (N.eqb_spec li NO_STREAM); [contradiction|].
+    destruct r as [|rl ri rr].
+    + cbn [Rep] in HR. rewrite HR, N.eqb_refl. cbn [orb fst snd join].
+      split; [|intros; apply keeps_recolor].
+      eapply rep_frame_links; [exact HL0|]. intros; apply keeps_recolor.
+    + pose proof HR as HR0. destruct HR as (Er & Hrine & er & Her & HRl & HRr).
+      rewrite Er in *.
+      destruct (N.eqb_spec ri NO_STREAM); [contradiction|]. cbn [orb fst snd].
+      destruct (Hfp Hline Hrine) as [fuel Hf]. apply (find_pred_spec _ _ _ _ _ _ _ _ HL0) in Hf.
+      apply nodup_node in NDl. destruct NDl as (NDll & NDlr & Hlil & Hlir & Hllr).
+      set (ds1 := recolor_black ds _).
+      assert (forall j, keeps ds ds1 j) as K1 by (intros; apply keeps_recolor).
+      set (F := fun pe' => set_color (set_right pe' ri) (d_color e)).
+      destruct lr as [|q1 q2 q3].
+      * cbn [tree_pred] in Hf. injection Hf as <- <-. rewrite N.eqb_refl.
+        cbn [join split_max].
+        destruct (K1 li el Hel) as (el1 & Hel1 & EL1 & ER1).
+        assert (nthN (modN ds1 li F) li = Some (F el1)) as H3 by (apply nthN_modN_same; exact Hel1).
+        split.
+        -- split; [reflexivity|]. split; [exact Hline|]. exists (F el1). split; [exact H3|]. split.
+           ++ change (d_left (F el1)) with (d_left el1). rewrite EL1.
+              eapply rep_frame_links; [exact HLl|]. intros j Hj.
+              eapply keeps_trans; [apply K1|]. apply keeps_eq. apply nthN_modN_other.
+              intros ->. contradiction.
+           ++ change (d_right (F el1)) with ri.
+              eapply rep_frame_links; [exact HR0|]. intros j Hj.
+              eapply keeps_trans; [apply K1|]. apply keeps_eq. apply nthN_modN_other.
+              intros ->. apply (Hlr j); [apply in_node; right; left; reflexivity|exact Hj].
+        -- intros j Hj. eapply keeps_trans; [apply K1|]. apply keeps_eq. apply nthN_modN_other.
+           intros ->. apply Hj. apply in_or_app. left. apply in_node. right. left. reflexivity.
+      * destruct (tree_pred_in (BN q1 q2 q3) li x pp pred) as [Ppp Ppred]; [discriminate|exact Hf|].
+        assert (In pp (ids (BN ll li (BN q1 q2 q3)))) as Ppp'.
+        { apply in_node. destruct Ppp as [<-|Ppp]; [right; left; reflexivity|right; right; exact Ppp]. }
+        assert (In pred (ids (BN ll li (BN q1 q2 q3)))) as Ppred'.
+        { apply in_node. right. right. exact Ppred. }
+        assert (pp <> pred) as Hpn.
+        { apply (tree_pred_neq (BN q1 q2 q3) li x pp pred); [|discriminate|exact Hf].
+          apply NoDup_cons_iff. split; assumption. }
+        destruct (N.eqb_spec pp x) as [Epx|Epx]; [subst pp; contradiction|].
+        destruct (rep_ids _ _ _ HL0 pred Ppred') as [_ Hplt].
+        destruct (nthN_lt_Some _ _ _ Hplt) as [pe Hpe].
+        destruct (rep_ids _ _ _ HL0 pp Ppp') as [_ Hpplt].
+        destruct (nthN_lt_Some _ _ _ Hpplt) as [ppe Hppe].
+        subst ds1. rewrite Hpe in *.
+        set (ds1 := recolor_black ds (d_left pe)) in *.
+        set (G1 := fun ppe0 => set_right ppe0 (d_left pe)).
+        set (G2 := fun pe' => set_left pe' li).
+        set (ds2 := modN (modN ds1 pp G1) pred G2).
+        destruct (K1 pred pe Hpe) as (pe1 & Hpe1 & PL1 & PR1).
+        destruct (K1 pp ppe Hppe) as (ppe1 & Hppe1 & PPL1 & PPR1).
+        assert (nthN ds2 pred = Some (G2 pe1)) as D2pred.
+        { apply nthN_modN_same. rewrite nthN_modN_other by exact Hpn. exact Hpe1. }
+        assert (nthN (modN ds2 pred F) pred = Some (F (G2 pe1))) as D3pred.
+        { apply nthN_modN_same. exact D2pred. }
+        assert (nthN (modN ds2 pred F) pp = Some (G1 ppe1)) as D3pp.
+        { rewrite nthN_modN_other by congruence. unfold ds2.
+          rewrite nthN_modN_other by congruence. apply nthN_modN_same. exact Hppe1. }
+        assert (forall j, j <> pp -> j <> pred -> keeps ds (modN ds2 pred F) j) as D3o.
+        { intros j J1 J2. eapply keeps_trans; [apply K1|]. apply keeps_eq.
+          rewrite nthN_modN_other by congruence. unfold ds2.
+          rewrite nthN_modN_other by congruence. apply nthN_modN_other. congruence. }
+        destruct (split_max_rep ds (modN ds2 pred F) (d_left pe) (BN q1 q2 q3) ll li x pp pred)
+          as [S1 S2]; [exact HL0| |discriminate|exact Hf| | | |].
+        { apply nodup_node. repeat split; assumption. }
+        { intros j _ J1 J2. apply D3o; assumption. }
+        { intros ppe0 Hppe0. exists (G1 ppe1). split; [exact D3pp|]. split.
+          - change (d_left (G1 ppe1)) with (d_left ppe1). congruence.
+          - reflexivity. }
+        { intros pe0 Hpe0. congruence. }
+        cbn [join]. destruct (split_max ll li (BN q1 q2 q3)) as [l' m]. cbn [fst snd] in S1, S2. subst m.
+        split.
+        -- split; [reflexivity|]. split; [eapply rep_ids; [exact HL0|exact Ppred']|].
+           exists (F (G2 pe1)). split; [exact D3pred|]. split.
+           ++ change (d_left (F (G2 pe1))) with li. exact S1.
+           ++ change (d_right (F (G2 pe1))) with ri.
+              eapply rep_frame_links; [exact HR0|]. intros j Hj. apply D3o.
+              ** intros ->. exact (Hlr _ Ppp' Hj).
+              ** intros ->. exact (Hlr _ Ppred' Hj).
+        -- intros j Hj. apply D3o.
+           ** intros ->. apply Hj. apply in_or_app. left. exact Ppp'.
+           ** intros ->. apply Hj. apply in_or_app. left. exact Ppred'.
+Qed.
+
+(* search path *)
+Fixpoint anc (ds : list dirent) (nm : name) (t : btree) : list N :=
+  match t with
+  | BL => []
+  | BN l i r =>
+    match cmp_names nm (nm_of ds i) with
+    | Eq => []
+    | Lt => i :: anc ds nm l
+    | Gt => i :: anc ds nm r
+    end
+  end.
+
+Fixpoint kids (ds : list dirent) (nm : name) (t : btree) : btree * btree :=
+  match t with
+  | BL => (BL, BL)
+  | BN l i r =>
+    match cmp_names nm (nm_of ds i) with
+    | Eq => (l, r)
+    | Lt => kids ds nm l
+    | Gt => kids ds nm r
+    end
+  end.
+
+Lemma lastN_app1 : forall A (l : list A) x, lastN (l ++ [x]) = Some x.
+Proof. intros. unfold lastN. rewrite rev_unit. reflexivity. Qed.
+
+Lemma pop_last_app1 : forall A (l : list A) x, pop_last (l ++ [x]) = l.
+Proof. intros. unfold pop_last. apply removelast_last. Qed.
+
+Lemma lastN_cons : forall A (a : A) l,
+  lastN (a :: l) = match lastN l with Some y => Some y | None => Some a end.
+Proof. intros. unfold lastN. cbn [rev]. destruct (rev l); reflexivity. Qed.
+
+Lemma anc_in : forall ds nm t j, In j (anc ds nm t) -> In j (ids t).
+Proof.
+  induction t as [|l IHl i r IHr]; intros j H; cbn [anc] in H; [contradiction|].
+  apply in_node. destruct (cmp_names nm (nm_of ds i)); [contradiction| |];
+    (destruct H as [<-|H]; [right; left; reflexivity|]); auto.
+Qed.
+
+Lemma lastN_in : forall A (l : list A) x, lastN l = Some x -> In x l.
+Proof.
+  intros A l x H. unfold lastN in H. destruct (rev l) as [|y l'] eqn:E; [discriminate|].
+  injection H as ->. apply in_rev. rewrite E. left. reflexivity.
+Qed.
+
+Lemma kids_rep : forall ds nm x l r t root,
+  Rep ds root t -> bst_find ds nm t = Some x -> kids ds nm t = (l, r) ->
+  Rep ds x (BN l x r) /\ (forall j, In j (ids (BN l x r)) -> In j (ids t)) /\
+  (NoDup (ids t) -> NoDup (ids (BN l x r))).
+Proof.
+  intros ds nm x l r. induction t as [|tl IHl i tr IHr]; intros root HR HF HK; [discriminate HF|].
+  pose proof HR as HR0. destruct HR as (E & Hne & e & He & HL & HRr).
+  cbn [bst_find kids] in HF, HK. destruct (cmp_names nm (nm_of ds i)).
+  - injection HF as <-. injection HK as <- <-. subst root. split; [exact HR0|]. split; auto.
+  - destruct (IHl _ HL HF HK) as (R1 & R2 & R3). split; [exact R1|]. split.
+    + intros j Hj. apply in_node. left. auto.
+    + intros ND. apply nodup_node in ND. apply R3. tauto.
+  - destruct (IHr _ HRr HF HK) as (R1 & R2 & R3). split; [exact R1|]. split.
+    + intros j Hj. apply in_node. right. right. auto.
+    + intros ND. apply nodup_node in ND. apply R3. tauto.
+Qed.
+
+Lemma remove_find_spec : forall ds nm x t root fuel acc,
+  Rep ds root t -> bst_find ds nm t = Some x -> NoDup (ids t) ->
+  (forall j, In j acc -> ~ In j (ids t)) -> (length (ids t) < fuel)%nat ->
+  remove_find fuel ds nm root acc = Ok (acc ++ anc ds nm t ++ [x]).
+Proof.
+  intros ds nm x. induction t as [|l IHl i r IHr]; intros root fuel acc HR HF ND HA Hf; [discriminate HF|].
+  destruct HR as (E & Hne & e & He & HL & HRr). subst root.
+  cbn [ids] in Hf. rewrite app_length in Hf. cbn [length] in Hf.
+  destruct fuel as [|f]; [lia|]. cbn [remove_find].
+  destruct (N.eqb_spec i NO_STREAM); [contradiction|].
+  destruct (memN i acc) eqn:Hm.
+  { apply memN_In in Hm. exfalso. apply (HA i Hm). apply in_node. right. left. reflexivity. }
+  unfold dir_entry_of. rewrite He. cbn [rbind].
+  cbn [bst_find anc] in *. unfold nm_of in *. rewrite He in *.
+  apply nodup_node in ND. destruct ND as (NDl & NDr & Hil & Hir & Hlr).
+  destruct (cmp_names nm (d_name e)).
+  - injection HF as <-. reflexivity.
+  - rewrite (IHl (d_left e) f (acc ++ [i])); [|exact HL|exact HF|exact NDl| |lia].
+    + rewrite <- app_assoc. reflexivity.
+    + intros j Hj. apply in_app_or in Hj. destruct Hj as [Hj|[<-|[]]]; [|exact Hil].
+      intros Hjl. apply (HA j Hj). apply in_node. left. exact Hjl.
+  - rewrite (IHr (d_right e) f (acc ++ [i])); [|exact HRr|exact HF|exact NDr| |lia].
+    + rewrite <- app_assoc. reflexivity.
+    + intros j Hj. apply in_app_or in Hj. destruct Hj as [Hj|[<-|[]]]; [|exact Hir].
+      intros Hjr. apply (HA j Hj). apply in_node. right. right. exact Hjr.
+Qed.
+
+(* the context of x: relinking the parent slot *)
+Lemma ctx_rep : forall ds ds1 nm x l r repl t root,
+  Rep ds root t -> NoDup (ids t) -> bst_find ds nm t = Some x -> kids ds nm t = (l, r) ->
+  (forall j, In j (ids t) -> ~ In j (ids (BN l x r)) -> keeps ds ds1 j) ->
+  Rep ds1 repl (join l r) ->
+  match lastN (anc ds nm t) with
+  | None => root = x /\ t = BN l x r
+  | Some sib => forall ds2,
+      (forall j, j <> sib -> nthN ds2 j = nthN ds1 j) ->
+      (forall se, nthN ds1 sib = Some se -> exists se2, nthN ds2 sib = Some se2 /\
+         if d_left se =? x then d_left se2 = repl /\ d_right se2 = d_right se
+         else d_left se2 = d_left se /\ d_right se2 = repl) ->
+      Rep ds2 root (bst_remove x t)
+  end.
+Proof.
+  intros ds ds1 nm x l r repl.
+  induction t as [|tl IHl i tr IHr]; intros root HR ND HF HK K HJ; [discriminate HF|].
+  pose proof HR as HR0. destruct HR as (E & Hne & e & He & HL & HRr). subst root.
+  pose proof (kids_rep _ _ _ _ _ _ _ HR0 HF HK) as (KR & KI & _).
+  pose proof (bst_find_sound _ _ _ _ HF) as [Hxin _].
+  cbn [bst_find kids anc] in *.
+  apply nodup_node in ND. destruct ND as (NDl & NDr & Hil & Hir & Hlr).
+  destruct (cmp_names nm (nm_of ds i)) eqn:C.
+  - injection HF as <-. injection HK as <- <-. cbn [lastN rev]. auto.
+  - (* x is in the left subtree *)
+    pose proof (bst_find_sound _ _ _ _ HF) as [Hxl _].
+    pose proof (kids_rep _ _ _ _ _ _ _ HL HF HK) as (_ & KIl & _).
+    assert (i <> x) as Hix by (intros ->; contradiction).
+    assert (~ In i (ids (BN l x r))) as Hisub by (intros Hc; apply Hil; apply KIl; exact Hc).
+    assert (keeps ds ds1 i) as Ki by (apply K; [apply in_node; right; left; reflexivity|exact Hisub]).
+    destruct (Ki e He) as (e1 & He1 & EL1 & ER1).
+    assert (forall j, In j (ids tr) -> keeps ds ds1 j) as Ktr.
+    { intros j Hj. apply K; [apply in_node; right; right; exact Hj|].
+      intros Hc. apply (Hlr j); [apply KIl; exact Hc|exact Hj]. }
+    specialize (IHl (d_left e) HL NDl HF HK).
+    rewrite lastN_cons. cbn [bst_remove]. destruct (N.eqb_spec i x); [contradiction|].
+    rewrite (bst_remove_notin x tr) by (intros Hc; exact (Hlr _ Hxl Hc)).
+    destruct (lastN (anc ds nm tl)) as [sib|] eqn:Hlast.
+    + assert (In sib (ids tl)) as Hsib by (eapply anc_in; eapply lastN_in; exact Hlast).
+      intros ds2 Hoth Hsibe.
+      assert (sib <> i) as Hsi by (intros ->; contradiction).
+      split; [reflexivity|]. split; [exact Hne|]. exists e1.
+      split; [rewrite Hoth by congruence; exact He1|]. rewrite EL1, ER1. split.
+      * apply IHl; [|exact HJ|exact Hoth|exact Hsibe].
+        intros j Hj Hjs. apply K; [apply in_node; left; exact Hj|exact Hjs].
+      * eapply rep_frame_links; [exact HRr|]. intros j Hj.
+        eapply keeps_trans; [apply Ktr; exact Hj|]. apply keeps_eq. apply Hoth.
+        intros ->. exact (Hlr _ Hsib Hj).
+    + destruct IHl as [Ex Et]; [|exact HJ|].
+      { intros j Hj Hjs. apply K; [apply in_node; left; exact Hj|exact Hjs]. }
+      subst tl. intros ds2 Hoth Hsibe.
+      destruct (Hsibe e1 He1) as (e2 & He2 & Hlinks).
+      rewrite EL1, Ex, N.eqb_refl in Hlinks. destruct Hlinks as [EL2 ER2].
+      cbn [bst_remove]. rewrite N.eqb_refl.
+      split; [reflexivity|]. split; [exact Hne|]. exists e2. split; [exact He2|].
+      rewrite EL2, ER2, ER1. split.
+      * eapply rep_frame; [exact HJ|]. intros j Hj. apply Hoth.
+        intros ->. apply Hisub. rewrite ids_join in Hj. apply in_node.
+        apply in_app_or in Hj. tauto.
+      * eapply rep_frame_links; [exact HRr|]. intros j Hj.
+        eapply keeps_trans; [apply Ktr; exact Hj|]. apply keeps_eq. apply Hoth.
+        intros ->. contradiction.
+  - (* x is in the right subtree *)
+    pose proof (bst_find_sound _ _ _ _ HF) as [Hxr _].
+    pose proof (kids_rep _ _ _ _ _ _ _ HRr HF HK) as (_ & KIr & _).
+    assert (i <> x) as Hix by (intros ->; contradiction).
+    assert (~ In i (ids (BN l x r))) as Hisub by (intros Hc; apply Hir; apply KIr; exact Hc).
+    assert (keeps ds ds1 i) as Ki by (apply K; [apply in_node; right; left; reflexivity|exact Hisub]).
+    destruct (Ki e He) as (e1 & He1 & EL1 & ER1).
+    assert (forall j, In j (ids tl) -> keeps ds ds1 j) as Ktl.
+    { intros j Hj. apply K; [apply in_node; left; exact Hj|].
+      intros Hc. apply (Hlr j); [exact Hj|apply KIr; exact Hc]. }
+    specialize (IHr (d_right e) HRr NDr HF HK).
+    rewrite lastN_cons. cbn [bst_remove]. destruct (N.eqb_spec i x); [contradiction|].
+    rewrite (bst_remove_notin x tl) by (intros Hc; exact (Hlr _ Hc Hxr)).
+    destruct (lastN (anc ds nm tr)) as [sib|] eqn:Hlast.
+    + assert (In sib (ids tr)) as Hsib by (eapply anc_in; eapply lastN_in; exact Hlast).
+      intros ds2 Hoth Hsibe.
+      assert (sib <> i) as Hsi by (intros ->; contradiction).
+      split; [reflexivity|]. split; [exact Hne|]. exists e1.
+      split; [rewrite Hoth by congruence; exact He1|]. rewrite EL1, ER1. split.
+      * eapply rep_frame_links; [exact HL|]. intros j Hj.
+        eapply keeps_trans; [apply Ktl; exact Hj|]. apply keeps_eq. apply Hoth.
+        intros ->. exact (Hlr _ Hj Hsib).
+      * apply IHr; [|exact HJ|exact Hoth|exact Hsibe].
+        intros j Hj Hjs. apply K; [apply in_node; right; right; exact Hj|exact Hjs].
+    + destruct IHr as [Ex Et]; [|exact HJ|].
+      { intros j Hj Hjs. apply K; [apply in_node; right; right; exact Hj|exact Hjs]. }
+      subst tr. intros ds2 Hoth Hsibe.
+      destruct (Hsibe e1 He1) as (e2 & He2 & Hlinks).
+      assert (d_left e1 <> x) as Hlx.
+      { rewrite EL1. intros Hc. pose proof (rep_root _ _ _ HL) as Hroot.
+        destruct tl as [|a b c].
+        - destruct (rep_ids _ _ _ HRr x Hxr) as [Hxne _]. congruence.
+        - destruct Hroot as [Hb _]. apply (Hlr x); [|exact Hxr].
+          apply in_node. right. left. congruence. }
+      destruct (N.eqb_spec (d_left e1) x); [contradiction|]. destruct Hlinks as [EL2 ER2].
+      cbn [bst_remove]. rewrite N.eqb_refl.
+      split; [reflexivity|]. split; [exact Hne|]. exists e2. split; [exact He2|].
+      rewrite EL2, ER2, EL1. split.
+      * eapply rep_frame_links; [exact HL|]. intros j Hj.
+        eapply keeps_trans; [apply Ktl; exact Hj|]. apply keeps_eq. apply Hoth.
+        intros ->. contradiction.
+      * eapply rep_frame; [exact HJ|]. intros j Hj. apply Hoth.
+        intros ->. apply Hisub. rewrite ids_join in Hj. apply in_node.
+        apply in_app_or in Hj. tauto.
+Qed.
+
+(* ================================================================== *)
+(* what the table function preserves, field by field                   *)
+(* ================================================================== *)
+
+Definition same_payload (e e' : dirent) : Prop :=
+  d_name e' = d_name e /\ d_type e' = d_type e /\ d_start e' = d_start e /\ d_len e' = d_len e /\
+  d_clsid e' = d_clsid e /\ d_state e' = d_state e /\ d_ctime e' = d_ctime e /\ d_mtime e' = d_mtime e.
+
+(* only d_left / d_right / d_color may differ *)
+Definition same_lrc (e e' : dirent) : Prop := same_payload e e' /\ d_child e' = d_child e.
+
+Definition pres (P : dirent -> dirent -> Prop) (ds ds' : list dirent) : Prop :=
+  forall j e, nthN ds j = Some e -> exists e', nthN ds' j = Some e' /\ P e e'.
+
+Lemma same_lrc_refl : forall e, same_lrc e e.
+Proof. intros. unfold same_lrc, same_payload. repeat split; reflexivity. Qed.
+
+Lemma same_lrc_trans : forall a b c, same_lrc a b -> same_lrc b c -> same_lrc a c.
+Proof. unfold same_lrc, same_payload. intros a b c H1 H2. intuition congruence. Qed.
+
+Lemma pres_refl : forall ds, pres same_lrc ds ds.
+Proof. intros ds j e He. exists e. split; [exact He|apply same_lrc_refl]. Qed.
+
+Lemma lrc_modN : forall ds ds' k f,
+  pres same_lrc ds ds' -> (forall e, same_lrc e (f e)) -> pres same_lrc ds (modN ds' k f).
+Proof.
+  intros ds ds' k f H Hf j e He. destruct (H j e He) as (e1 & He1 & P1).
+  rewrite nthN_modN. destruct (k =? j).
+  - rewrite He1. cbn [option_map]. exists (f e1). split; [reflexivity|].
+    eapply same_lrc_trans; [exact P1|apply Hf].
+  - exists e1. auto.
+Qed.
+
+Ltac lrc_solve := intros; unfold same_lrc, same_payload; repeat split; reflexivity.
+
+Lemma splice_pres : forall ds x e pp pred, pres same_lrc ds (fst (splice_tbl ds x e pp pred)).
+Proof.
+  intros. unfold splice_tbl, recolor_black. cbv zeta.
+  destruct ((d_left e =? NO_STREAM) || (d_right e =? NO_STREAM)); cbn [fst].
+  - destruct (_ =? NO_STREAM); [apply pres_refl|]. apply lrc_modN; [apply pres_refl|lrc_solve].
+  - apply lrc_modN; [|lrc_solve].
+    assert (pres same_lrc ds
+      (if match nthN ds pred with Some pe => d_left pe | None => NO_STREAM end =? NO_STREAM
+       then ds
+       else modN ds match nthN ds pred with Some pe => d_left pe | None => NO_STREAM end
+              (fun ce => set_color ce Black))) as H1.
+    { destruct (_ =? NO_STREAM); [apply pres_refl|]. apply lrc_modN; [apply pres_refl|lrc_solve]. }
+    destruct (pp =? x); [exact H1|].
+    apply lrc_modN; [|lrc_solve]. apply lrc_modN; [exact H1|lrc_solve].
+Qed.
+
+Lemma lenN_recolor : forall ds c, lenN (recolor_black ds c) = lenN ds.
+Proof. intros. unfold recolor_black. destruct (c =? NO_STREAM); [reflexivity|apply lenN_modN]. Qed.
+
+Lemma lenN_splice : forall ds x e pp pred, lenN (fst (splice_tbl ds x e pp pred)) = lenN ds.
+Proof.
+  intros. unfold splice_tbl. cbv zeta.
+  destruct ((d_left e =? NO_STREAM) || (d_right e =? NO_STREAM)); cbn [fst].
+  - apply lenN_recolor.
+  - rewrite lenN_modN. destruct (pp =? x); rewrite ?lenN_modN; apply lenN_recolor.
+Qed.
+
+Lemma lenN_relink : forall ds parent sibo x repl, lenN (relink ds parent sibo x repl) = lenN ds.
+Proof. intros. unfold relink. destruct sibo; apply lenN_modN. Qed.
+
+Lemma lenN_remove_tbl : forall ds parent sibo x e pp pred,
+  lenN (remove_tbl ds parent sibo x e pp pred) = lenN ds.
+Proof.
+  intros. unfold remove_tbl. pose proof (lenN_splice ds x e pp pred) as H.
+  destruct (splice_tbl ds x e pp pred) as [ds1 repl]. cbn [fst] in H.
+  rewrite lenN_updN, lenN_relink. exact H.
+Qed.
+
+Lemma remove_tbl_stable : forall ds parent sibo x e pp pred j ej,
+  j <> x -> nthN ds j = Some ej ->
+  exists e', nthN (remove_tbl ds parent sibo x e pp pred) j = Some e' /\ same_payload ej e' /\
+             (sibo <> None \/ j <> parent -> d_child e' = d_child ej).
+Proof.
+  intros ds parent sibo x e pp pred j ej Hjx Hej. unfold remove_tbl.
+  pose proof (splice_pres ds x e pp pred) as P.
+  destruct (splice_tbl ds x e pp pred) as [ds1 repl]. cbn [fst] in P.
+  destruct (P j ej Hej) as (e1 & He1 & [P1 C1]).
+  rewrite nthN_updN_other by congruence. unfold relink. destruct sibo as [sib|].
+  - assert (pres same_lrc ds (modN ds1 sib
+      (fun se => if d_left se =? x then set_left se repl else set_right se repl))) as P2.
+    { apply lrc_modN; [exact P|]. intros e0. destruct (d_left e0 =? x); lrc_solve. }
+    destruct (P2 j ej Hej) as (e2 & He2 & [P2a C2]). exists e2. auto.
+  - rewrite nthN_modN. destruct (N.eqb_spec parent j) as [E|E].
+    + rewrite He1. cbn [option_map]. exists (set_child e1 repl). split; [reflexivity|].
+      split; [exact P1|]. intros [H|H]; congruence.
+    + exists e1. split; [exact He1|]. split; [exact P1|]. intros _. exact C1.
+Qed.
+
+Lemma remove_tbl_x : forall ds parent sibo x e pp pred,
+  nthN ds x = Some e ->
+  nthN (remove_tbl ds parent sibo x e pp pred) x = Some dirent_unallocated.
+Proof.
+  intros ds parent sibo x e pp pred He. unfold remove_tbl.
+  pose proof (lenN_splice ds x e pp pred) as H.
+  destruct (splice_tbl ds x e pp pred) as [ds1 repl]. cbn [fst] in H.
+  apply nthN_updN_same. rewrite lenN_relink, H. eapply nthN_Some_lt; eauto.
+Qed.
+
+(* the slots that are written at all *)
+Definition optN (c : N) : list N := if c =? NO_STREAM then [] else [c].
+
+Definition splice_touched (ds : list dirent) (x : N) (e : dirent) (pp pred : N) : list N :=
+  if (d_left e =? NO_STREAM) || (d_right e =? NO_STREAM)
+  then optN (if d_left e =? NO_STREAM then d_right e else d_left e)
+  else optN (match nthN ds pred with Some pe => d_left pe | None => NO_STREAM end)
+       ++ (if pp =? x then [] else [pp]) ++ [pred].
+
+Definition remove_touched (ds : list dirent) (parent : N) (sibo : option N) (x : N) (e : dirent)
+           (pp pred : N) : list N :=
+  x :: (match sibo with Some sib => sib | None => parent end) :: splice_touched ds x e pp pred.
+
+Lemma recolor_other : forall ds c j, ~ In j (optN c) -> nthN (recolor_black ds c) j = nthN ds j.
+Proof.
+  intros ds c j H. unfold recolor_black, optN in *. destruct (c =? NO_STREAM); [reflexivity|].
+  apply nthN_modN_other. intros ->. apply H. left. reflexivity.
+Qed.
+
+Lemma splice_untouched : forall ds x e pp pred j,
+  ~ In j (splice_touched ds x e pp pred) -> nthN (fst (splice_tbl ds x e pp pred)) j = nthN ds j.
+Proof.
+  intros ds x e pp pred j H. unfold splice_tbl, splice_touched in *. cbv zeta.
+  destruct ((d_left e =? NO_STREAM) || (d_right e =? NO_STREAM)); cbn [fst].
+  - apply recolor_other. exact H.
+  - rewrite !in_app_iff in H. rewrite nthN_modN_other by (intros ->; apply H; right; right; left; reflexivity).
+    destruct (pp =? x).
+    + apply recolor_other. tauto.
+    + rewrite nthN_modN_other by (intros ->; apply H; right; right; left; reflexivity).
+      rewrite nthN_modN_other by (intros ->; apply H; right; left; left; reflexivity).
+      apply recolor_other. tauto.
+Qed.
+
+Lemma remove_tbl_untouched : forall ds parent sibo x e pp pred j,
+  ~ In j (remove_touched ds parent sibo x e pp pred) ->
+  nthN (remove_tbl ds parent sibo x e pp pred) j = nthN ds j.
+Proof.
+  intros ds parent sibo x e pp pred j H. unfold remove_tbl, remove_touched in *.
+  pose proof (splice_untouched ds x e pp pred j) as P.
+  destruct (splice_tbl ds x e pp pred) as [ds1 repl]. cbn [fst] in P.
+  rewrite nthN_updN_other by (intros ->; apply H; left; reflexivity).
+  unfold relink. destruct sibo as [sib|];
+    (rewrite nthN_modN_other by (intros ->; apply H; right; left; reflexivity));
+    apply P; intros Hc; apply H; right; right; exact Hc.
+Qed.
+
+Lemma remove_find_last : forall ds nm fuel id acc path,
+  remove_find fuel ds nm id acc = Ok path ->
+  exists x e, lastN path = Some x /\ nthN ds x = Some e /\ cmp_names nm (d_name e) = Eq.
+Proof.
+  induction fuel as [|f IH]; intros id acc path H; [discriminate H|].
+  cbn [remove_find] in H. destruct (id =? NO_STREAM); [discriminate H|].
+  destruct (memN id acc); [discriminate H|].
+  unfold dir_entry_of in H. destruct (nthN ds id) as [e|] eqn:He; [|discriminate H].
+  cbn [rbind] in H. destruct (cmp_names nm (d_name e)) eqn:C.
+  - injection H as <-. exists id, e. rewrite lastN_app1. auto.
+  - eapply IH; eauto.
+  - eapply IH; eauto.
+Qed.
+
+(* C07 core, for every table whatsoever: a successful removal frees exactly
+   one slot, whose name matches, and no other entry changes anything but
+   links and colour (the parent: its child link) *)
+Theorem remove_ids_stable_raw : forall parent nm s s' u,
+  remove_dir_entry parent nm s = (s', Ok u) ->
+  exists x ex,
+    nthN (dirs s) x = Some ex /\ cmp_names nm (d_name ex) = Eq /\ d_child ex = NO_STREAM /\
+    x <> ROOT_STREAM_ID /\ nthN (dirs s') x = Some dirent_unallocated /\
+    lenN (dirs s') = lenN (dirs s) /\
+    forall i e, i <> x -> nthN (dirs s) i = Some e ->
+      exists e', nthN (dirs s') i = Some e' /\ same_payload e e' /\
+                 (i <> parent -> d_child e' = d_child e).
+Proof.
+  intros parent nm s s' u H.
+  destruct (remove_proj _ _ _ _ _ H) as (p & path & x & e & pp & pred & Hp & Hrf & Hlast & He & Hc & Hroot & Hfp & Hds).
+  destruct (remove_find_last _ _ _ _ _ _ Hrf) as (x' & e' & Hl' & He' & Hcmp).
+  assert (x' = x) by congruence. subst x'. assert (e' = e) by congruence. subst e'.
+  exists x, e. repeat (split; [assumption|]). rewrite Hds. split; [apply remove_tbl_x; exact He|].
+  split; [apply lenN_remove_tbl|].
+  intros i ei Hix Hei.
+  destruct (remove_tbl_stable (dirs s) parent (lastN (pop_last path)) x e pp pred i ei Hix Hei)
+    as (e2 & He2 & P2 & C2).
+  exists e2. split; [exact He2|]. split; [exact P2|]. intros Hip. apply C2. right. exact Hip.
+Qed.
+
+(* ================================================================== *)
+(* D. removal: the theorems                                            *)
+(* ================================================================== *)
+
+Lemma nodup_remove : forall x (l : list N), NoDup l -> NoDup (remove N.eq_dec x l).
+Proof.
+  induction l as [|h l IH]; intros ND; cbn [remove]; [constructor|].
+  apply NoDup_cons_iff in ND. destruct ND as [Hh ND].
+  destruct (N.eq_dec x h); [auto|]. constructor; [|auto].
+  intros Hc. apply in_remove in Hc. tauto.
+Qed.
+
+Lemma remove_core : forall parent nm s s' u p t x,
+  remove_dir_entry parent nm s = (s', Ok u) ->
+  nthN (dirs s) parent = Some p -> Rep (dirs s) (d_child p) t -> NoDup (ids t) ->
+  bst_find (dirs s) nm t = Some x ->
+  exists e pp pred l r,
+    nthN (dirs s) x = Some e /\ d_child e = NO_STREAM /\ x <> parent /\
+    kids (dirs s) nm t = (l, r) /\
+    Rep (dirs s) x (BN l x r) /\ NoDup (ids (BN l x r)) /\
+    (forall j, In j (ids (BN l x r)) -> In j (ids t)) /\
+    dirs s' = remove_tbl (dirs s) parent (lastN (anc (dirs s) nm t)) x e pp pred /\
+    (d_left e <> NO_STREAM -> d_right e <> NO_STREAM ->
+     find_pred (S (length (dirs s))) (dirs s) x (d_left e) = Ok (pp, pred)) /\
+    (lastN (anc (dirs s) nm t) = None -> d_child p = x) /\
+    exists p', nthN (dirs s') parent = Some p' /\ Rep (dirs s') (d_child p') (bst_remove x t).
+Proof.
+  intros parent nm s s' u p t x H Hp HR ND HF.
+  destruct (remove_proj _ _ _ _ _ H)
+    as (p0 & path & x0 & e & pp & pred & Hp0 & Hrf & Hlast & He & Hc & Hroot & Hfp & Hds).
+  assert (p0 = p) by congruence. subst p0.
+  set (ds := dirs s) in *.
+  rewrite (remove_find_spec ds nm x t (d_child p) (S (length ds)) []) in Hrf;
+    [|exact HR|exact HF|exact ND|intros j []|].
+  2: { pose proof (rep_length _ _ _ HR ND). lia. }
+  cbn [app] in Hrf. injection Hrf as <-.
+  rewrite lastN_app1 in Hlast. injection Hlast as <-.
+  rewrite pop_last_app1 in Hds.
+  destruct (kids ds nm t) as [l r] eqn:HK.
+  destruct (kids_rep _ _ _ _ _ _ _ HR HF HK) as (KR & KI & KND). specialize (KND ND).
+  pose proof KR as KR0. destruct KR as (_ & Hxne & e0 & He0 & HLl & HRr).
+  assert (e0 = e) by congruence. subst e0.
+  assert (x <> parent) as Hxp.
+  { intros ->. assert (p = e) by congruence. subst p. rewrite Hc in HR.
+    apply rep_nostream in HR. subst t. discriminate HF. }
+  destruct (splice_rep ds x e l r pp pred He HLl HRr KND) as [SR SK].
+  { intros A B. eexists. apply Hfp; assumption. }
+  pose proof (splice_pres ds x e pp pred) as SP.
+  pose proof Hds as Hds0.
+  unfold remove_tbl in Hds. destruct (splice_tbl ds x e pp pred) as [ds1 repl] eqn:S.
+  cbn [fst snd] in *.
+  assert (forall j, In j (ids t) -> ~ In j (ids (BN l x r)) -> keeps ds ds1 j) as K.
+  { intros j Hj Hn. apply SK. intros Hc'. apply Hn. apply in_node. apply in_app_or in Hc'. tauto. }
+  pose proof (ctx_rep ds ds1 nm x l r repl t (d_child p) HR ND HF HK K SR) as CTX.
+  destruct (SP parent p Hp) as (p1 & Hp1 & [PP1 PC1]).
+  exists e, pp, pred, l, r. repeat (split; [first [assumption|reflexivity]|]).
+  destruct (lastN (anc ds nm t)) as [sib|] eqn:Hl.
+  - split; [discriminate|].
+    unfold relink in Hds.
+    set (f := fun se => if d_left se =? x then set_left se repl else set_right se repl) in Hds.
+    assert (Rep (modN ds1 sib f) (d_child p) (bst_remove x t)) as R2.
+    { apply CTX.
+      - intros j Hj. apply nthN_modN_other. congruence.
+      - intros se Hse. exists (f se). split; [apply nthN_modN_same; exact Hse|].
+        unfold f. destruct (d_left se =? x); split; reflexivity. }
+    assert (parent <> x) as Hpx by congruence.
+    destruct (remove_tbl_stable ds parent (Some sib) x e pp pred parent p Hpx Hp) as (p' & Hp' & _ & Cp').
+    rewrite <- Hds0 in Hp'. exists p'. split; [exact Hp'|].
+    rewrite Cp' by (left; discriminate). rewrite Hds.
+    eapply rep_frame; [exact R2|]. intros j Hj. apply nthN_updN_other.
+    apply in_bst_remove in Hj; [|exact ND]. intros ->. tauto.
+  - destruct CTX as [Ex Et]. split; [intros _; exact Ex|]. subst t.
+    unfold relink in Hds. exists (set_child p1 repl). split.
+    + rewrite Hds. rewrite nthN_updN_other by exact Hxp.
+      exact (nthN_modN_same ds1 parent (fun pe => set_child pe repl) p1 Hp1).
+    + change (d_child (set_child p1 repl)) with repl.
+      cbn [bst_remove]. rewrite N.eqb_refl. rewrite Hds.
+      eapply rep_frame_links; [exact SR|]. intros j Hj.
+      eapply keeps_trans;
+        [apply (keeps_modN ds1 parent (fun pe => set_child pe repl)); intros; split; reflexivity|].
+      apply keeps_eq. apply nthN_updN_other. intros ->.
+      rewrite ids_join in Hj. apply nodup_node in KND.
+      apply in_app_or in Hj. tauto.
+Qed.
+
+Lemma stable_nm : forall ds ds' (x i : N),
+  (forall i e, i <> x -> nthN ds i = Some e ->
+     exists e', nthN ds' i = Some e' /\ same_payload e e') ->
+  i <> x -> i < lenN ds -> nm_of ds' i = nm_of ds i.
+Proof.
+  intros ds ds' x i H Hix Hlt. destruct (nthN_lt_Some _ _ _ Hlt) as [e He].
+  destruct (H i e Hix He) as (e' & He' & P). unfold nm_of. rewrite He, He'. apply P.
+Qed.
+
+Theorem remove_rep : forall parent nm s s' u p t x,
+  remove_dir_entry parent nm s = (s', Ok u) ->
+  nthN (dirs s) parent = Some p -> Rep (dirs s) (d_child p) t ->
+  bst (dirs s) t -> NoDup (ids t) -> bst_find (dirs s) nm t = Some x ->
+  exists p',
+    nthN (dirs s') parent = Some p' /\ same_payload p p' /\
+    Rep (dirs s') (d_child p') (bst_remove x t) /\
+    bst (dirs s') (bst_remove x t) /\
+    NoDup (ids (bst_remove x t)) /\
+    ids (bst_remove x t) = remove N.eq_dec x (ids t) /\
+    nthN (dirs s') x = Some dirent_unallocated /\
+    lenN (dirs s') = lenN (dirs s).
+Proof.
+  intros parent nm s s' u p t x H Hp HR HB ND HF.
+  destruct (remove_core _ _ _ _ _ _ _ _ H Hp HR ND HF)
+    as (e & pp & pred & l & r & He & Hc & Hxp & HK & _ & _ & _ & Hds & _ & _ & p' & Hp' & HR').
+  assert (forall i ei, i <> x -> nthN (dirs s) i = Some ei ->
+            exists e', nthN (dirs s') i = Some e' /\ same_payload ei e') as ST.
+  { intros i ei Hix Hei. rewrite Hds.
+    destruct (remove_tbl_stable (dirs s) parent (lastN (anc (dirs s) nm t)) x e pp pred i ei Hix Hei)
+      as (e2 & He2 & P2 & _). eauto. }
+  exists p'. split; [exact Hp'|]. split.
+  { destruct (ST parent p) as (p2 & Hp2 & P2); [congruence|exact Hp|]. congruence. }
+  split; [exact HR'|]. split.
+  { eapply bst_frame; [|apply bst_remove_bst; [exact HB|exact ND]].
+    intros j Hj. apply in_bst_remove in Hj; [|exact ND]. destruct Hj as [Hj Hjx].
+    eapply stable_nm; [exact ST|exact Hjx|]. eapply rep_ids; eauto. }
+  split; [rewrite ids_bst_remove by exact ND; apply nodup_remove; exact ND|].
+  split; [apply ids_bst_remove; exact ND|].
+  rewrite Hds. split; [apply remove_tbl_x; exact He|apply lenN_remove_tbl].
+Qed.
+
+Lemma tree_pred_in2 : forall r i pparent pp pred,
+  tree_pred pparent i r = (pp, pred) ->
+  (pp = pparent \/ In pp (i :: ids r)) /\ In pred (i :: ids r).
+Proof.
+  induction r as [|a _ b c IHc]; intros i pparent pp pred H; cbn [tree_pred] in H.
+  - injection H as <- <-. split; [left; reflexivity|left; reflexivity].
+  - destruct (IHc _ _ _ _ H) as [[P1|P1] P2].
+    + subst pp. split; [right; left; reflexivity|]. right. cbn [ids]. apply in_or_app. right. exact P2.
+    + split; [right|]; right; cbn [ids]; apply in_or_app; right; assumption.
+Qed.
+
+Lemma rep_left_in : forall ds t root j e,
+  Rep ds root t -> In j (ids t) -> nthN ds j = Some e -> d_left e <> NO_STREAM ->
+  In (d_left e) (ids t).
+Proof.
+  induction t as [|l IHl i r IHr]; intros root j e HR Hj He Hne; [contradiction|].
+  destruct HR as (_ & _ & e0 & He0 & HL & HRr). apply in_node in Hj. apply in_node.
+  destruct Hj as [Hj|[->|Hj]].
+  - left. eapply IHl; eauto.
+  - assert (e0 = e) by congruence. subst e0. left.
+    destruct (rep_some _ _ _ HL Hne) as (a & b & ->). apply in_node. right. left. reflexivity.
+  - right. right. eapply IHr; eauto.
+Qed.
+
+Lemma splice_touched_in : forall ds x e l r pp pred j,
+  nthN ds x = Some e -> Rep ds (d_left e) l -> Rep ds (d_right e) r ->
+  (d_left e <> NO_STREAM -> d_right e <> NO_STREAM ->
+   exists fuel, find_pred fuel ds x (d_left e) = Ok (pp, pred)) ->
+  In j (splice_touched ds x e pp pred) -> In j (ids l ++ ids r).
+Proof.
+  intros ds x e l r pp pred j He HL HR Hfp H. unfold splice_touched, optN in H.
+  destruct (N.eqb_spec (d_left e) NO_STREAM) as [El|El]; cbn [orb] in H.
+  - destruct (N.eqb_spec (d_right e) NO_STREAM) as [Er|Er]; [contradiction|].
+    destruct H as [<-|[]]. destruct (rep_some _ _ _ HR Er) as (a & b & ->).
+    apply in_or_app. right. apply in_node. right. left. reflexivity.
+  - destruct (rep_some _ _ _ HL El) as (ll & lr & ->).
+    destruct (N.eqb_spec (d_right e) NO_STREAM) as [Er|Er]; cbn [orb] in H.
+    + destruct (N.eqb_spec (d_left e) NO_STREAM); [contradiction|].
+      destruct H as [<-|[]]. apply in_or_app. left. apply in_node. right. left. reflexivity.
+    + destruct (Hfp El Er) as [fuel Hf]. apply (find_pred_spec _ _ _ _ _ _ _ _ HL) in Hf.
+      destruct (tree_pred_in2 _ _ _ _ _ Hf) as [Ppp Ppred].
+      assert (In pred (ids (BN ll (d_left e) lr))) as Ppred'.
+      { apply in_node. destruct Ppred as [<-|P]; [right; left; reflexivity|right; right; exact P]. }
+      apply in_or_app. left.
+      apply in_app_or in H. destruct H as [H|H].
+      * destruct (nthN ds pred) as [pe|] eqn:Hpe.
+        -- destruct (N.eqb_spec (d_left pe) NO_STREAM) as [Epl|Epl]; [contradiction|].
+           destruct H as [<-|[]]. eapply rep_left_in; eauto.
+        -- rewrite N.eqb_refl in H. contradiction.
+      * apply in_app_or in H. destruct H as [H|[<-|[]]]; [|exact Ppred'].
+        destruct (N.eqb_spec pp x) as [Epx|Epx]; [contradiction|]. destruct H as [<-|[]].
+        destruct Ppp as [P|P]; [contradiction|]. apply in_node.
+        destruct P as [<-|P]; [right; left; reflexivity|right; right; exact P].
+Qed.
+
+(* C07: the ids of the surviving entries keep designating the same streams *)
+Theorem remove_ids_stable : forall parent nm s s' u p t x,
+  remove_dir_entry parent nm s = (s', Ok u) ->
+  nthN (dirs s) parent = Some p -> Rep (dirs s) (d_child p) t -> NoDup (ids t) ->
+  bst_find (dirs s) nm t = Some x ->
+  (forall i e, i <> x -> nthN (dirs s) i = Some e ->
+     exists e', nthN (dirs s') i = Some e' /\ same_payload e e' /\
+                (i <> parent \/ d_child p <> x -> d_child e' = d_child e)) /\
+  (forall i l r, kids (dirs s) nm t = (l, r) -> i <> x ->
+     (match lastN (anc (dirs s) nm t) with Some sib => i <> sib | None => i <> parent end) ->
+     ~ In i (ids l ++ ids r) -> nthN (dirs s') i = nthN (dirs s) i).
+Proof.
+  intros parent nm s s' u p t x H Hp HR ND HF.
+  destruct (remove_core _ _ _ _ _ _ _ _ H Hp HR ND HF)
+    as (e & pp & pred & l & r & He & Hc & Hxp & HK & KR & _ & _ & Hds & Hfp & Hroot & _).
+  split.
+  - intros i ei Hix Hei. rewrite Hds.
+    destruct (remove_tbl_stable (dirs s) parent (lastN (anc (dirs s) nm t)) x e pp pred i ei Hix Hei)
+      as (e2 & He2 & P2 & C2).
+    exists e2. split; [exact He2|]. split; [exact P2|]. intros [Hi|Hi]; apply C2; [right; exact Hi|].
+    left. intros Hn. apply Hi. apply Hroot. exact Hn.
+  - intros i l0 r0 HK0 Hix Hsib Hsub. rewrite HK in HK0. injection HK0 as <- <-.
+    rewrite Hds. apply remove_tbl_untouched. unfold remove_touched.
+    intros [Hc'|[Hc'|Hc']].
+    + congruence.
+    + destruct (lastN (anc (dirs s) nm t)); congruence.
+    + apply Hsub. destruct KR as (_ & _ & e0 & He0 & HLl & HRr).
+      assert (e0 = e) by congruence. subst e0.
+      eapply splice_touched_in; [exact He|exact HLl|exact HRr| |exact Hc'].
+      intros A B. eexists. apply Hfp; assumption.
+Qed.
+
+(* the exact set of written slots *)
+Theorem remove_untouched_exact : forall parent nm s s' u p t x,
+  remove_dir_entry parent nm s = (s', Ok u) ->
+  nthN (dirs s) parent = Some p -> Rep (dirs s) (d_child p) t -> NoDup (ids t) ->
+  bst_find (dirs s) nm t = Some x ->
+  exists e pp pred,
+    nthN (dirs s) x = Some e /\
+    (d_left e <> NO_STREAM -> d_right e <> NO_STREAM ->
+     find_pred (S (length (dirs s))) (dirs s) x (d_left e) = Ok (pp, pred)) /\
+    forall i, ~ In i (remove_touched (dirs s) parent (lastN (anc (dirs s) nm t)) x e pp pred) ->
+              nthN (dirs s') i = nthN (dirs s) i.
+Proof.
+  intros parent nm s s' u p t x H Hp HR ND HF.
+  destruct (remove_core _ _ _ _ _ _ _ _ H Hp HR ND HF)
+    as (e & pp & pred & l & r & He & Hc & Hxp & HK & KR & _ & _ & Hds & Hfp & Hroot & _).
+  exists e, pp, pred. split; [exact He|]. split; [exact Hfp|].
+  intros i Hi. rewrite Hds. apply remove_tbl_untouched. exact Hi.
+Qed.
+
+(* listings stay sorted, minus the removed name *)
+Theorem remove_inorder : forall parent nm s s' u p t x,
+  remove_dir_entry parent nm s = (s', Ok u) ->
+  nthN (dirs s) parent = Some p -> Rep (dirs s) (d_child p) t -> NoDup (ids t) ->
+  bst_find (dirs s) nm t = Some x ->
+  map (nm_of (dirs s')) (ids (bst_remove x t)) =
+  map (nm_of (dirs s)) (remove N.eq_dec x (ids t)).
+Proof.
+  intros parent nm s s' u p t x H Hp HR ND HF.
+  destruct (remove_ids_stable _ _ _ _ _ _ _ _ H Hp HR ND HF) as [ST _].
+  rewrite ids_bst_remove by exact ND. apply map_ext_in. intros j Hj.
+  apply in_remove in Hj. destruct Hj as [Hj Hjx].
+  eapply stable_nm; [|exact Hjx|eapply rep_ids; eauto].
+  intros i ei Hix Hei. destruct (ST i ei Hix Hei) as (e' & He' & P & _). eauto.
+Qed.
+
+(* every other name is found as before, at the same id; the removed name is gone *)
+Theorem remove_lookup : forall parent nm s s' u p t x,
+  remove_dir_entry parent nm s = (s', Ok u) ->
+  nthN (dirs s) parent = Some p -> Rep (dirs s) (d_child p) t ->
+  bst (dirs s) t -> NoDup (ids t) -> bst_find (dirs s) nm t = Some x ->
+  exists p', nthN (dirs s') parent = Some p' /\
+    forall nm',
+      find_in_siblings (S (length (dirs s'))) (dirs s') nm' (d_child p') =
+      Ok (match bst_find (dirs s) nm' t with
+          | Some y => if y =? x then None else Some y
+          | None => None
+          end).
+Proof.
+  intros parent nm s s' u p t x H Hp HR HB ND HF.
+  destruct (remove_rep _ _ _ _ _ _ _ _ H Hp HR HB ND HF)
+    as (p' & Hp' & _ & HR' & HB' & ND' & Hids & _ & _).
+  destruct (remove_ids_stable _ _ _ _ _ _ _ _ H Hp HR ND HF) as [ST _].
+  exists p'. split; [exact Hp'|]. intros nm'.
+  rewrite (find_in_siblings_total _ nm' _ _ HR' ND'). f_equal.
+  assert (forall j, In j (ids (bst_remove x t)) -> nm_of (dirs s') j = nm_of (dirs s) j) as NM.
+  { intros j Hj. apply in_bst_remove in Hj; [|exact ND]. destruct Hj as [Hj Hjx].
+    eapply stable_nm; [|exact Hjx|eapply rep_ids; eauto].
+    intros i ei Hix Hei. destruct (ST i ei Hix Hei) as (e' & He' & P & _). eauto. }
+  destruct (bst_find (dirs s) nm' t) as [y|] eqn:Fy.
+  - apply bst_find_iff in Fy; [|exact HB]. destruct Fy as [Hy Cy].
+    destruct (N.eqb_spec y x) as [Eyx|Eyx].
+    + subst y. apply bst_find_none; [exact HB'|]. intros id Hid Cid.
+      pose proof Hid as Hid0. apply in_bst_remove in Hid; [|exact ND]. destruct Hid as [Hid Hidx].
+      rewrite (NM id Hid0) in Cid.
+      assert (bst_find (dirs s) nm' t = Some id) as F1 by (apply bst_find_iff; auto).
+      assert (bst_find (dirs s) nm' t = Some x) as F2 by (apply bst_find_iff; auto).
+      congruence.
+    + apply bst_find_iff; [exact HB'|].
+      assert (In y (ids (bst_remove x t))) as Hy' by (apply in_bst_remove; auto).
+      split; [exact Hy'|]. rewrite (NM y Hy'). exact Cy.
+  - apply bst_find_none; [exact HB'|]. intros id Hid Cid.
+    pose proof Hid as Hid0. apply in_bst_remove in Hid; [|exact ND]. destruct Hid as [Hid Hidx].
+    rewrite (NM id Hid0) in Cid.
+    assert (bst_find (dirs s) nm' t = Some id) as F1 by (apply bst_find_iff; auto).
+    congruence.
+Qed.
+
+(* ================================================================== *)
+(* C. insertion                                                        *)
+(* ================================================================== *)
+
+Definition alloc_tbl (ds : list dirent) : list dirent * N :=
+  match first_unalloc ds 0 with
+  | Some id => (ds, id)
+  | None => (ds ++ [dirent_unallocated], lenN ds)
+  end.
+
+Definition tbl_link (ds : list dirent) (parent prev : N) (ord : comparison) (id : N) : list dirent :=
+  match ord with
+  | Lt => modN ds prev (fun pe => set_left pe id)
+  | Gt => modN ds prev (fun pe => set_right pe id)
+  | Eq => match nthN ds prev with Some pe => updN ds parent (set_child pe id) | None => ds end
+  end.
+
+Lemma alloc_proj : forall s s' id,
+  allocate_dir_entry s = (s', Ok id) -> (dirs s', id) = alloc_tbl (dirs s).
+Proof.
+  intros s s' id H. unfold allocate_dir_entry in H. unfold alloc_tbl.
+  binv H s0 s1 H1 H2. apply get_inv in H1. destruct H1 as [-> ->].
+  destruct (first_unalloc (dirs s) 0) as [i|].
+  - apply ret_inv in H2. destruct H2 as [-> ->]. reflexivity.
+  - binv H2 u1 s1 H1 H2.
+    assert (dirs s1 = dirs s) as E1.
+    { eapply frames_run; [|exact H1]. fr. }
+    binv H2 s0 s2 H2 H3. apply get_inv in H2. destruct H2 as [-> ->].
+    binv H3 u2 s2 H3 H4. unfold put in H3. injection H3 as <-.
+    apply ret_inv in H4. destruct H4 as [-> ->]. cbn [dirs w_dirs]. rewrite E1. reflexivity.
+Qed.
+
+Lemma insert_proj : forall parent nm ty now s s' id,
+  insert_dir_entry parent nm ty now s = (s', Ok id) ->
+  exists ds0 p prev ord,
+    (ds0, id) = alloc_tbl (dirs s) /\ nthN ds0 id <> None /\
+    let ds1 := updN ds0 id (dirent_new nm ty (if objtype_eqb ty TStorage then now else 0)) in
+    nthN ds1 parent = Some p /\
+    insert_descend (S (length ds1)) ds1 nm (d_child p) parent Eq = Ok (prev, ord) /\
+    dirs s' = tbl_link ds1 parent prev ord id.
+Proof.
+  intros parent nm ty now s s' id H. unfold insert_dir_entry in H.
+  binv H id0 s1 H1 H2. apply alloc_proj in H1. cbv zeta in H2.
+  binv H2 u1 s2 H2 H3. apply set_dir_entry_inv in H2. destruct H2 as [[old Hold] E2].
+  binv H3 p s3 H3 H4. apply dir_entry_inv in H3. destruct H3 as [-> Hp].
+  binv H4 s0 s3 H4 H5. apply get_inv in H4. destruct H4 as [-> ->].
+  binv H5 a s3 H5 H6. apply lift_inv in H5. destruct H5 as [-> Hd]. destruct a as [prev ord].
+  binv H6 pe s3 H6 H7. apply dir_entry_inv in H6. destruct H6 as [-> Hpe].
+  binv H7 u2 s3 H7 H8. binv H8 u3 s4 H8 H9. apply ret_inv in H9. destruct H9 as [-> ->].
+  apply (frames_run _ _ _ _ _ (frames_write_dir_entry _)) in H8.
+  exists (dirs s1), p, prev, ord. split; [exact H1|]. split; [congruence|].
+  cbv zeta. rewrite <- E2. split; [exact Hp|]. split; [exact Hd|].
+  rewrite H8. unfold tbl_link. destruct ord.
+  - binv H7 u4 s5 H7 H9. apply set_dir_entry_inv in H7. destruct H7 as [_ H7].
+    apply (frames_run _ _ _ _ _ (frames_write_in_dir_entry _ _ _)) in H9. rewrite Hpe. congruence.
+  - binv H7 u4 s5 H7 H9. apply set_dir_entry_inv in H7. destruct H7 as [_ H7].
+    apply (frames_run _ _ _ _ _ (frames_write_in_dir_entry _ _ _)) in H9.
+    unfold modN. rewrite Hpe. congruence.
+  - binv H7 u4 s5 H7 H9. apply set_dir_entry_inv in H7. destruct H7 as [_ H7].
+    apply (frames_run _ _ _ _ _ (frames_write_in_dir_entry _ _ _)) in H9.
+    unfold modN. rewrite Hpe. congruence.
+Qed.
+
+Fixpoint bst_insert (ds : list dirent) (nm : name) (id : N) (t : btree) : btree :=
+  match t with
+  | BL => BN BL id BL
+  | BN l i r =>
+    match cmp_names nm (nm_of ds i) with
+    | Lt => BN (bst_insert ds nm id l) i r
+    | Gt => BN l i (bst_insert ds nm id r)
+    | Eq => t
+    end
+  end.
+
+Fixpoint ins_point (ds : list dirent) (nm : name) (t : btree) (prev : N) (ord : comparison)
+  : N * comparison :=
+  match t with
+  | BL => (prev, ord)
+  | BN l i r =>
+    match cmp_names nm (nm_of ds i) with
+    | Lt => ins_point ds nm l i Lt
+    | Gt => ins_point ds nm r i Gt
+    | Eq => (prev, ord)
+    end
+  end.
+
+Lemma insert_descend_spec : forall ds nm t root fuel prev ord,
+  Rep ds root t -> bst_find ds nm t = None -> (length (ids t) < fuel)%nat ->
+  insert_descend fuel ds nm root prev ord = Ok (ins_point ds nm t prev ord).
+Proof.
+  induction t as [|l IHl i r IHr]; intros root fuel prev ord HR HF Hf.
+  - cbn [Rep] in HR. subst root. destruct fuel; [cbn in Hf; lia|].
+    cbn [insert_descend]. rewrite N.eqb_refl. reflexivity.
+  - destruct HR as (E & Hne & e & He & HL & HRr). subst root.
+    cbn [ids] in Hf. rewrite app_length in Hf. cbn [length] in Hf.
+    destruct fuel; [lia|]. cbn [insert_descend].
+    destruct (N.eqb_spec i NO_STREAM); [contradiction|].
+    unfold dir_entry_of. rewrite He. cbn [rbind ins_point bst_find] in *. unfold nm_of in *. rewrite He in *.
+    destruct (cmp_names nm (d_name e)).
+    + discriminate HF.
+    + apply IHl; [exact HL|exact HF|lia].
+    + apply IHr; [exact HRr|exact HF|lia].
+Qed.
+
+Lemma in_bst_insert : forall ds nm id t j, bst_find ds nm t = None ->
+  (In j (ids (bst_insert ds nm id t)) <-> j = id \/ In j (ids t)).
+Proof.
+  induction t as [|l IHl i r IHr]; intros j HF; cbn [bst_insert bst_find] in *.
+  - cbn. intuition congruence.
+  - destruct (cmp_names nm (nm_of ds i)); [discriminate HF| |]; rewrite !in_node.
+    + rewrite IHl by exact HF. tauto.
+    + rewrite IHr by exact HF. tauto.
+Qed.
+
+Lemma perm_bst_insert : forall ds nm id t, bst_find ds nm t = None ->
+  Permutation (ids (bst_insert ds nm id t)) (id :: ids t).
+Proof.
+  induction t as [|l IHl i r IHr]; intros HF; cbn [bst_insert bst_find] in *.
+  - apply Permutation_refl.
+  - destruct (cmp_names nm (nm_of ds i)); [discriminate HF| |]; cbn [ids].
+    + eapply Permutation_trans; [apply Permutation_app_tail; apply IHl; exact HF|]. reflexivity.
+    + eapply Permutation_trans; [apply Permutation_app_head; apply perm_skip; apply IHr; exact HF|].
+      apply Permutation_sym.
+      pose proof (Permutation_middle (ids l ++ [i]) (ids r) id) as P.
+      rewrite <- !app_assoc in P. cbn [app] in P. exact P.
+Qed.
+
+Lemma bst_find_ext : forall ds ds' nm t,
+  (forall j, In j (ids t) -> nm_of ds' j = nm_of ds j) -> bst_find ds' nm t = bst_find ds nm t.
+Proof.
+  induction t as [|l IHl i r IHr]; intros H; cbn [bst_find]; [reflexivity|].
+  rewrite (H i) by (apply in_node; right; left; reflexivity).
+  rewrite IHl by (intros j Hj; apply H; apply in_node; left; exact Hj).
+  rewrite IHr by (intros j Hj; apply H; apply in_node; right; right; exact Hj). reflexivity.
+Qed.
+
+Lemma bst_insert_ext : forall ds ds' nm id t,
+  (forall j, In j (ids t) -> nm_of ds' j = nm_of ds j) ->
+  bst_insert ds' nm id t = bst_insert ds nm id t.
+Proof.
+  induction t as [|l IHl i r IHr]; intros H; cbn [bst_insert]; [reflexivity|].
+  rewrite (H i) by (apply in_node; right; left; reflexivity).
+  rewrite IHl by (intros j Hj; apply H; apply in_node; left; exact Hj).
+  rewrite IHr by (intros j Hj; apply H; apply in_node; right; right; exact Hj). reflexivity.
+Qed.
+
+Lemma ins_point_ext : forall ds ds' nm t prev ord,
+  (forall j, In j (ids t) -> nm_of ds' j = nm_of ds j) ->
+  ins_point ds' nm t prev ord = ins_point ds nm t prev ord.
+Proof.
+  induction t as [|l IHl i r IHr]; intros prev ord H; cbn [ins_point]; [reflexivity|].
+  rewrite (H i) by (apply in_node; right; left; reflexivity).
+  rewrite IHl by (intros j Hj; apply H; apply in_node; left; exact Hj).
+  rewrite IHr by (intros j Hj; apply H; apply in_node; right; right; exact Hj). reflexivity.
+Qed.
+
+Lemma bst_insert_bst : forall ds nm id t,
+  bst ds t -> bst_find ds nm t = None -> nm_of ds id = nm -> bst ds (bst_insert ds nm id t).
+Proof.
+  induction t as [|l IHl i r IHr]; intros B HF Hn; cbn [bst_insert bst_find] in *.
+  - cbn. repeat split; intros j [].
+  - destruct B as (Bl & Br & Lo & Hi).
+    destruct (cmp_names nm (nm_of ds i)) eqn:C; [discriminate HF| |]; cbn [bst].
+    + split; [apply IHl; assumption|]. split; [exact Br|]. split; [|exact Hi].
+      intros j Hj. apply in_bst_insert in Hj; [|exact HF]. destruct Hj as [->|Hj]; [|auto].
+      rewrite Hn. exact C.
+    + split; [exact Bl|]. split; [apply IHr; assumption|]. split; [exact Lo|].
+      intros j Hj. apply in_bst_insert in Hj; [|exact HF]. destruct Hj as [->|Hj]; [|auto].
+      rewrite Hn. exact C.
+Qed.
+
+Lemma tbl_link_other : forall ds parent prev ord id j,
+  ord <> Eq -> j <> prev -> nthN (tbl_link ds parent prev ord id) j = nthN ds j.
+Proof.
+  intros ds parent prev ord id j Ho Hj. unfold tbl_link.
+  destruct ord; [congruence| |]; apply nthN_modN_other; congruence.
+Qed.
+
+Lemma btree_case : forall t, t = BL \/ t <> BL.
+Proof. intros [|l i r]; [left; reflexivity|right; discriminate]. Qed.
+
+Lemma ins_rep : forall ds parent nm id ei,
+  nthN ds id = Some ei -> d_left ei = NO_STREAM -> d_right ei = NO_STREAM -> id <> NO_STREAM ->
+  forall t root prev0 ord0 pv od,
+  Rep ds root t -> NoDup (ids t) -> bst_find ds nm t = None -> ~ In id (ids t) -> t <> BL ->
+  ins_point ds nm t prev0 ord0 = (pv, od) ->
+  In pv (ids t) /\ od <> Eq /\ Rep (tbl_link ds parent pv od id) root (bst_insert ds nm id t).
+Proof.
+  intros ds parent nm id ei Hei Hil Hir Hidne.
+  assert (forall ds', nthN ds' id = Some ei -> Rep ds' id (BN BL id BL)) as Leaf.
+  { intros ds' H. split; [reflexivity|]. split; [exact Hidne|]. exists ei. split; [exact H|].
+    split; [exact Hil|exact Hir]. }
+  induction t as [|l IHl i r IHr]; intros root prev0 ord0 pv od HR ND HF Hid Hne HP; [congruence|].
+  destruct HR as (E & Hine & e & He & HL & HRr). subst root.
+  apply nodup_node in ND. destruct ND as (NDl & NDr & Hnil & Hnir & Hlr).
+  rewrite in_node in Hid.
+  assert (i <> id) as Hiid by (intros Hc; apply Hid; right; left; symmetry; exact Hc).
+  cbn [bst_find ins_point bst_insert] in *.
+  destruct (cmp_names nm (nm_of ds i)) eqn:C; [discriminate HF| |].
+  - destruct (btree_case l) as [->|Hl].
+    + cbn [ins_point] in HP. injection HP as <- <-.
+      split; [apply in_node; right; left; reflexivity|]. split; [discriminate|].
+      cbn [bst_insert tbl_link].
+      split; [reflexivity|]. split; [exact Hine|]. exists (set_left e id).
+      split; [exact (nthN_modN_same ds i (fun pe => set_left pe id) e He)|]. split.
+      * change (d_left (set_left e id)) with id. apply Leaf.
+        rewrite nthN_modN_other by exact Hiid. exact Hei.
+      * change (d_right (set_left e id)) with (d_right e).
+        eapply rep_frame; [exact HRr|]. intros j Hj. apply nthN_modN_other. intros ->. contradiction.
+    + destruct (IHl (d_left e) i Lt pv od HL NDl HF) as (Pin & Pod & PR); [tauto|exact Hl|exact HP|].
+      split; [apply in_node; left; exact Pin|]. split; [exact Pod|].
+      split; [reflexivity|]. split; [exact Hine|]. exists e.
+      split; [rewrite tbl_link_other; [exact He|exact Pod|intros ->; contradiction]|].
+      split; [exact PR|].
+      eapply rep_frame; [exact HRr|]. intros j Hj. apply tbl_link_other; [exact Pod|].
+      intros ->. exact (Hlr _ Pin Hj).
+  - destruct (btree_case r) as [->|Hr].
+    + cbn [ins_point] in HP. injection HP as <- <-.
+      split; [apply in_node; right; left; reflexivity|]. split; [discriminate|].
+      cbn [bst_insert tbl_link].
+      split; [reflexivity|]. split; [exact Hine|]. exists (set_right e id).
+      split; [exact (nthN_modN_same ds i (fun pe => set_right pe id) e He)|]. split.
+      * change (d_left (set_right e id)) with (d_left e).
+        eapply rep_frame; [exact HL|]. intros j Hj. apply nthN_modN_other. intros ->. contradiction.
+      * change (d_right (set_right e id)) with id. apply Leaf.
+        rewrite nthN_modN_other by exact Hiid. exact Hei.
+    + destruct (IHr (d_right e) i Gt pv od HRr NDr HF) as (Pin & Pod & PR); [tauto|exact Hr|exact HP|].
+      split; [apply in_node; right; right; exact Pin|]. split; [exact Pod|].
+      split; [reflexivity|]. split; [exact Hine|]. exists e.
+      split; [rewrite tbl_link_other; [exact He|exact Pod|intros ->; contradiction]|].
+      split; [|exact PR].
+      eapply rep_frame; [exact HL|]. intros j Hj. apply tbl_link_other; [exact Pod|].
+      intros ->. exact (Hlr _ Hj Pin).
+Qed.
+
+Lemma tbl_link_stable : forall ds parent pv od id p j e,
+  nthN ds parent = Some p -> (od = Eq -> pv = parent) -> nthN ds j = Some e ->
+  exists e', nthN (tbl_link ds parent pv od id) j = Some e' /\ same_payload e e' /\
+             d_color e' = d_color e /\ (od <> Eq \/ j <> parent -> d_child e' = d_child e).
+Proof.
+  intros ds parent pv od id p j e Hp Hod He. unfold tbl_link. destruct od.
+  - rewrite (Hod eq_refl), Hp. destruct (N.eqb_spec parent j) as [E|E].
+    + subst j. assert (e = p) by congruence. subst e. exists (set_child p id).
+      split; [apply nthN_updN_same; eapply nthN_Some_lt; eauto|].
+      split; [unfold same_payload; repeat split; reflexivity|]. split; [reflexivity|].
+      intros [H|H]; congruence.
+    + exists e. rewrite nthN_updN_other by exact E. split; [exact He|].
+      split; [unfold same_payload; repeat split; reflexivity|]. auto.
+  - rewrite nthN_modN. destruct (pv =? j).
+    + rewrite He. cbn [option_map]. eexists. split; [reflexivity|].
+      split; [unfold same_payload; repeat split; reflexivity|]. split; [reflexivity|]. intros _. reflexivity.
+    + exists e. split; [exact He|]. split; [unfold same_payload; repeat split; reflexivity|]. auto.
+  - rewrite nthN_modN. destruct (pv =? j).
+    + rewrite He. cbn [option_map]. eexists. split; [reflexivity|].
+      split; [unfold same_payload; repeat split; reflexivity|]. split; [reflexivity|]. intros _. reflexivity.
+    + exists e. split; [exact He|]. split; [unfold same_payload; repeat split; reflexivity|]. auto.
+Qed.
+
+Lemma alloc_old : forall ds ds0 id, (ds0, id) = alloc_tbl ds ->
+  forall i, i < lenN ds -> nthN ds0 i = nthN ds i.
+Proof.
+  intros ds ds0 id H i Hi. unfold alloc_tbl in H. destruct (first_unalloc ds 0).
+  - injection H as -> _. reflexivity.
+  - injection H as -> _. apply nthN_app_l. exact Hi.
+Qed.
+
+Theorem insert_rep : forall parent nm ty now s s' id p t,
+  insert_dir_entry parent nm ty now s = (s', Ok id) ->
+  nthN (dirs s) parent = Some p -> Rep (dirs s) (d_child p) t ->
+  bst (dirs s) t -> NoDup (ids t) -> bst_find (dirs s) nm t = None ->
+  ~ In id (ids t) -> id <> parent -> id <> NO_STREAM ->
+  let t' := bst_insert (dirs s) nm id t in
+  let at_ := fst (ins_point (dirs s) nm t parent Eq) in
+  exists p',
+    nthN (dirs s') parent = Some p' /\ same_payload p p' /\
+    Rep (dirs s') (d_child p') t' /\ bst (dirs s') t' /\ NoDup (ids t') /\
+    Permutation (ids t') (id :: ids t) /\
+    nthN (dirs s') id = Some (dirent_new nm ty (if objtype_eqb ty TStorage then now else 0)) /\
+    (forall i e, i <> id -> nthN (dirs s) i = Some e ->
+       exists e', nthN (dirs s') i = Some e' /\ same_payload e e' /\ d_color e' = d_color e /\
+                  (i <> parent -> d_child e' = d_child e)) /\
+    (forall i, i <> id -> i <> at_ -> i < lenN (dirs s) -> nthN (dirs s') i = nthN (dirs s) i).
+Proof.
+  intros parent nm ty now s s' id p t H Hp HR HB ND HF Hid Hidp Hidne t' at_.
+  destruct (insert_proj _ _ _ _ _ _ _ H) as (ds0 & p1 & prev & ord & Hal & Hid0 & Hrest).
+  set (ds := dirs s) in *.
+  set (new := dirent_new nm ty (if objtype_eqb ty TStorage then now else 0)) in *.
+  set (ds1 := updN ds0 id new) in *. cbv zeta in Hrest. destruct Hrest as (Hp1 & Hd & Hds).
+  assert (id < lenN ds0) as Hidlt.
+  { destruct (nthN ds0 id) eqn:E; [eapply nthN_Some_lt; eauto|congruence]. }
+  assert (forall i, i <> id -> i < lenN ds -> nthN ds1 i = nthN ds i) as A.
+  { intros i Hi Hlt. unfold ds1. rewrite nthN_updN_other by congruence. eapply alloc_old; eauto. }
+  assert (nthN ds1 id = Some new) as Hnew by (apply nthN_updN_same; exact Hidlt).
+  assert (forall j, In j (ids t) -> j <> id /\ j < lenN ds) as Tin.
+  { intros j Hj. split; [intros ->; contradiction|]. eapply rep_ids; eauto. }
+  assert (parent < lenN ds) as Hplt by (eapply nthN_Some_lt; eauto).
+  assert (p1 = p) by (rewrite A in Hp1 by auto; congruence). subst p1.
+  assert (Rep ds1 (d_child p) t) as HR1.
+  { eapply rep_frame; [exact HR|]. intros j Hj. apply A; apply Tin; exact Hj. }
+  assert (forall j, In j (ids t) -> nm_of ds1 j = nm_of ds j) as NM1.
+  { intros j Hj. unfold nm_of. rewrite A by (apply Tin; exact Hj). reflexivity. }
+  assert (bst_find ds1 nm t = None) as HF1 by (rewrite (bst_find_ext ds ds1) by exact NM1; exact HF).
+  rewrite (insert_descend_spec ds1 nm t (d_child p) _ parent Eq HR1 HF1) in Hd.
+  2: { pose proof (rep_length _ _ _ HR1 ND). lia. }
+  injection Hd as Hd. rewrite (ins_point_ext ds ds1) in Hd by exact NM1.
+  assert (at_ = prev) as Hat by (unfold at_; fold ds; rewrite Hd; reflexivity).
+  assert (t' = bst_insert ds1 nm id t) as Ht' by (unfold t'; symmetry; apply bst_insert_ext; exact NM1).
+  assert (bst ds1 t) as HB1 by (eapply bst_frame; [exact NM1|exact HB]).
+  assert (nm_of ds1 id = nm) as Hnmid by (unfold nm_of; rewrite Hnew; reflexivity).
+  assert (Permutation (ids t') (id :: ids t)) as Perm by (rewrite Ht'; apply perm_bst_insert; exact HF1).
+  assert (ord = Eq -> prev = parent) as Hod.
+  { intros ->. destruct (btree_case t) as [->|Hne].
+    - cbn [ins_point] in Hd. congruence.
+    - destruct (ins_rep ds1 parent nm id new Hnew eq_refl eq_refl Hidne t (d_child p) parent Eq prev Eq
+                  HR1 ND HF1 Hid Hne) as (_ & Hc & _); [rewrite <- Hd; apply ins_point_ext; exact NM1|congruence]. }
+  assert (forall j e, nthN ds1 j = Some e ->
+            exists e', nthN (dirs s') j = Some e' /\ same_payload e e' /\ d_color e' = d_color e /\
+                       (ord <> Eq \/ j <> parent -> d_child e' = d_child e)) as ST.
+  { intros j e He. rewrite Hds. eapply tbl_link_stable; eauto. }
+  assert (forall j, nm_of (dirs s') j = nm_of ds1 j) as NM2.
+  { intros j. unfold nm_of. destruct (nthN ds1 j) as [e|] eqn:E.
+    - destruct (ST j e E) as (e' & He' & P & _). rewrite He'. apply P.
+    - assert (lenN (dirs s') = lenN ds1) as L.
+      { rewrite Hds. unfold tbl_link. destruct ord; rewrite ?lenN_modN; try reflexivity.
+        destruct (nthN ds1 prev); [apply lenN_updN|reflexivity]. }
+      apply nthN_None_ge in E. rewrite <- L in E.
+      destruct (nthN (dirs s') j) eqn:E'; [|reflexivity]. apply nthN_Some_lt in E'. lia. }
+  assert (exists p', nthN (dirs s') parent = Some p' /\ Rep (dirs s') (d_child p') t' /\
+                     nthN (dirs s') id = Some new) as Main.
+  { rewrite Ht'. destruct (btree_case t) as [->|Hne].
+    - cbn [ins_point] in Hd. injection Hd as <- <-.
+      rewrite Hds. unfold tbl_link. rewrite A by auto. fold ds. rewrite Hp.
+      exists (set_child p id). split; [apply nthN_updN_same; eapply nthN_Some_lt; exact Hp1|].
+      assert (nthN (updN ds1 parent (set_child p id)) id = Some new) as Hn2
+        by (rewrite nthN_updN_other by congruence; exact Hnew).
+      split; [|exact Hn2].
+      change (d_child (set_child p id)) with id. cbn [bst_insert].
+      split; [reflexivity|]. split; [exact Hidne|]. exists new. split; [exact Hn2|].
+      split; reflexivity.
+    - destruct (ins_rep ds1 parent nm id new Hnew eq_refl eq_refl Hidne t (d_child p) parent Eq prev ord
+                  HR1 ND HF1 Hid Hne) as (Pin & Pod & PR); [rewrite <- Hd; apply ins_point_ext; exact NM1|].
+      assert (nthN ds1 parent = Some p) as Hp1' by (rewrite A by auto; exact Hp).
+      destruct (ST parent p Hp1') as (p' & Hp' & _ & _ & Cp').
+      exists p'. split; [exact Hp'|]. rewrite Cp' by (left; exact Pod).
+      rewrite Hds. split; [exact PR|]. rewrite tbl_link_other; [exact Hnew|exact Pod|].
+      intros ->. contradiction. }
+  destruct Main as (p' & Hp' & HR' & Hn').
+  exists p'. split; [exact Hp'|]. split.
+  { assert (nthN ds1 parent = Some p) as Hp1' by (rewrite A by auto; exact Hp).
+    destruct (ST parent p Hp1') as (p2 & Hp2 & P2 & _). congruence. }
+  split; [exact HR'|]. split.
+  { rewrite Ht'. eapply bst_frame; [intros j _; apply NM2|].
+    apply bst_insert_bst; assumption. }
+  split.
+  { eapply Permutation_NoDup; [apply Permutation_sym; exact Perm|].
+    apply NoDup_cons_iff. split; assumption. }
+  split; [exact Perm|]. split; [exact Hn'|]. split.
+  - intros i e Hi He. assert (i < lenN ds) as Hlt by (eapply nthN_Some_lt; eauto).
+    rewrite <- A in He by assumption.
+    destruct (ST i e He) as (e' & He' & P & C & Ch). exists e'. repeat (split; [assumption|]).
+    intros Hip. apply Ch. right. exact Hip.
+  - intros i Hi Hat' Hlt. rewrite Hat in Hat'. rewrite <- A by assumption. rewrite Hds.
+    unfold tbl_link. destruct ord.
+    + rewrite (Hod eq_refl) in *. destruct (nthN ds1 parent); [|reflexivity].
+      apply nthN_updN_other. congruence.
+    + apply nthN_modN_other. congruence.
+    + apply nthN_modN_other. congruence.
+Qed.
+
+(* the slot chosen by the allocator is unallocated or new: under the usual
+   typing of the table the side conditions of insert_rep hold *)
+Lemma first_unalloc_spec : forall ds k id, first_unalloc ds k = Some id ->
+  k <= id /\ exists e, nthN ds (id - k) = Some e /\ d_type e = TUnalloc.
+Proof.
+  induction ds as [|e t IH]; intros k id H; cbn [first_unalloc] in H; [discriminate|].
+  destruct (objtype_eqb (d_type e) TUnalloc) eqn:T.
+  - injection H as <-. split; [lia|]. exists e. rewrite N.sub_diag. split; [reflexivity|].
+    destruct (d_type e); try discriminate T; reflexivity.
+  - apply IH in H. destruct H as (Hk & e' & He' & Ht). split; [lia|]. exists e'. split; [|exact Ht].
+    cbn [nthN]. destruct (N.eqb_spec (id - k) 0); [lia|].
+    replace (N.pred (id - k)) with (id - (k + 1)) by lia. exact He'.
+Qed.
+
+Lemma alloc_fresh : forall ds ds0 id, (ds0, id) = alloc_tbl ds ->
+  (exists e, nthN ds id = Some e /\ d_type e = TUnalloc) \/ id = lenN ds.
+Proof.
+  intros ds ds0 id H. unfold alloc_tbl in H. destruct (first_unalloc ds 0) as [i|] eqn:F.
+  - injection H as _ ->. apply first_unalloc_spec in F. rewrite N.sub_0_r in F. left. tauto.
+  - injection H as _ ->. right. reflexivity.
+Qed.
+
+Theorem insert_fresh : forall parent nm ty now s s' id p t,
+  insert_dir_entry parent nm ty now s = (s', Ok id) ->
+  nthN (dirs s) parent = Some p -> Rep (dirs s) (d_child p) t ->
+  d_type p <> TUnalloc ->
+  (forall j e, In j (ids t) -> nthN (dirs s) j = Some e -> d_type e <> TUnalloc) ->
+  lenN (dirs s) < NO_STREAM ->
+  ~ In id (ids t) /\ id <> parent /\ id <> NO_STREAM.
+Proof.
+  intros parent nm ty now s s' id p t H Hp HR Tp Tt Hlen.
+  destruct (insert_proj _ _ _ _ _ _ _ H) as (ds0 & p1 & prev & ord & Hal & _).
+  destruct (alloc_fresh _ _ _ Hal) as [(e & He & Te)|Hid].
+  - split; [|split].
+    + intros Hc. exact (Tt id e Hc He Te).
+    + intros ->. congruence.
+    + apply nthN_Some_lt in He. lia.
+  - split; [|split].
+    + intros Hc. destruct (rep_ids _ _ _ HR id Hc) as [_ Hlt]. lia.
+    + intros ->. apply nthN_Some_lt in Hp. lia.
+    + lia.
+Qed.
+
+(* ================================================================== *)
+(* E. listing: the non-recursive iterator walks ids t in order         *)
+(* ================================================================== *)
+From Cfb.model Require Cfb.
+
+(* the entry the iterator yields for id i under the path [par] *)
+Definition ent (ds : list dirent) (par : list N) (i : N) : Cfb.entry :=
+  match nthN ds i with
+  | Some e => Cfb.entry_of e (if objtype_eqb (d_type e) TRoot then par else path_join par (d_name e))
+  | None => Cfb.entry_of dirent_unallocated par
+  end.
+
+(* abstract stack: pending node with the tree of its right link *)
+Definition sgood (ds : list dirent) (it : N * btree) : Prop :=
+  exists e, nthN ds (fst it) = Some e /\ Rep ds (d_right e) (snd it) /\ NoDup (ids (snd it)).
+Definition sout (st : list (N * btree)) : list N := flat_map (fun it => fst it :: ids (snd it)) st.
+Definition sconc (par : list N) (st : list (N * btree)) : list (list N * N * bool) :=
+  map (fun it => (par, fst it, true)) st.
+
+Fixpoint spine_pairs (t : btree) : list (N * btree) :=
+  match t with BL => [] | BN l i r => spine_pairs l ++ [(i, r)] end.
+
+Lemma sout_app : forall a b, sout (a ++ b) = sout a ++ sout b.
+Proof. intros. unfold sout. apply flat_map_app. Qed.
+
+Lemma sout_spine : forall t, sout (spine_pairs t) = ids t.
+Proof.
+  induction t as [|l IHl i r IHr]; [reflexivity|]. cbn [spine_pairs ids].
+  rewrite sout_app, IHl. cbn. rewrite app_nil_r. reflexivity.
+Qed.
+
+Lemma left_spine_spec : forall ds par t root fuel st,
+  Rep ds root t -> NoDup (ids t) -> (length (ids t) < fuel)%nat ->
+  Cfb.left_spine fuel ds par root (sconc par st) = Ok (sconc par (spine_pairs t ++ st)) /\
+  Forall (sgood ds) (spine_pairs t).
+Proof.
+  induction t as [|l IHl i r IHr]; intros root fuel st HR ND Hf.
+  - cbn [Rep] in HR. subst root. destruct fuel; [cbn in Hf; lia|].
+    cbn [Cfb.left_spine]. rewrite N.eqb_refl. split; [reflexivity|constructor].
+  - destruct HR as (E & Hne & e & He & HL & HRr). subst root.
+    apply nodup_node in ND. destruct ND as (NDl & NDr & _).
+    cbn [ids] in Hf. rewrite app_length in Hf. cbn [length] in Hf.
+    destruct fuel; [lia|]. cbn [Cfb.left_spine].
+    destruct (N.eqb_spec i NO_STREAM); [contradiction|].
+    unfold dir_entry_of. rewrite He. cbn [rbind].
+    destruct (IHl (d_left e) fuel ((i, r) :: st) HL NDl) as [I1 I2]; [lia|].
+    cbn [spine_pairs]. split.
+    + change ((par, i, true) :: sconc par st) with (sconc par ((i, r) :: st)).
+      rewrite I1. rewrite <- app_assoc. reflexivity.
+    + apply Forall_app. split; [exact I2|]. constructor; [|constructor].
+      exists e. cbn [fst snd]. auto.
+Qed.
+
+Lemma entries_go_spec : forall ds par fuel st acc,
+  Forall (sgood ds) st -> (length (sout st) < fuel)%nat ->
+  Cfb.entries_go fuel ds Cfb.Nonrecursive (sconc par st) acc =
+  Ok (rev acc ++ map (ent ds par) (sout st)).
+Proof.
+  induction fuel as [|f IH]; intros st acc G Hf; [lia|].
+  destruct st as [|[i r] rest].
+  - cbn. rewrite app_nil_r. reflexivity.
+  - apply Forall_cons_iff in G. destruct G as [(e & He & HRr & NDr) G]. cbn [fst snd] in *.
+    cbn [sconc map Cfb.entries_go fst snd].
+    unfold dir_entry_of. rewrite He. cbn [rbind].
+    change (map (fun it : N * btree => (par, fst it, true)) rest) with (sconc par rest).
+    destruct (left_spine_spec ds par r (d_right e) (S (length ds)) rest HRr NDr) as [L1 L2].
+    { pose proof (rep_length _ _ _ HRr NDr). lia. }
+    rewrite L1. cbn [rbind].
+    assert (length (sout ((i, r) :: rest)) = S (length (sout (spine_pairs r ++ rest)))) as Hlen.
+    { rewrite sout_app, sout_spine. cbn [sout flat_map fst snd]. cbn [length app].
+      rewrite !app_length. reflexivity. }
+    rewrite IH; [|apply Forall_app; split; assumption|lia].
+    rewrite sout_app, sout_spine. cbn [rev sout flat_map fst snd map app].
+    rewrite <- app_assoc. cbn [app]. unfold ent at 2. rewrite He. reflexivity.
+Qed.
+
+Theorem entries_nonrec_inorder : forall ds par root t,
+  Rep ds root t -> NoDup (ids t) ->
+  Cfb.entries_collect ds Cfb.Nonrecursive par root = Ok (map (ent ds par) (ids t)).
+Proof.
+  intros ds par root t HR ND. unfold Cfb.entries_collect.
+  pose proof (rep_length _ _ _ HR ND) as Hlen.
+  destruct (left_spine_spec ds par t root (S (length ds)) [] HR ND) as [L1 L2]; [lia|].
+  change (@nil (list N * N * bool)) with (sconc par []) at 1.
+  rewrite L1. cbn [rbind]. rewrite app_nil_r.
+  rewrite entries_go_spec; [|exact L2|rewrite sout_spine; lia].
+  rewrite sout_spine. reflexivity.
+Qed.
+
+(* for entries that are not of root type the yielded path is parent/name *)
+Corollary ent_nonroot : forall ds par i e,
+  nthN ds i = Some e -> d_type e <> TRoot ->
+  ent ds par i = Cfb.entry_of e (path_join par (d_name e)).
+Proof.
+  intros ds par i e He Ht. unfold ent. rewrite He.
+  destruct (d_type e); try reflexivity. congruence.
+Qed.
+
+(* ================================================================== *)
+(* D'. removal keeps "no red node has a red child"                     *)
+(* ================================================================== *)
+
+Definition col (ds : list dirent) (i : N) : color :=
+  match nthN ds i with Some e => d_color e | None => Black end.
+Definition root_col (ds : list dirent) (t : btree) : color :=
+  match t with BL => Black | BN _ i _ => col ds i end.
+Fixpoint no_rr (ds : list dirent) (t : btree) : Prop :=
+  match t with
+  | BL => True
+  | BN l i r =>
+    no_rr ds l /\ no_rr ds r /\
+    (col ds i = Red -> root_col ds l = Black /\ root_col ds r = Black)
+  end.
+
+Lemma root_in : forall t, match t with BL => True | BN _ i _ => In i (ids t) end.
+Proof. intros [|l i r]; [exact I|]. apply in_node. right. left. reflexivity. Qed.
+
+Lemma root_col_frame : forall ds ds' t,
+  (forall j, In j (ids t) -> col ds' j = col ds j) -> root_col ds' t = root_col ds t.
+Proof.
+  intros ds ds' [|l i r] H; [reflexivity|]. cbn [root_col]. apply H. apply (root_in (BN l i r)).
+Qed.
+
+Lemma no_rr_frame : forall ds ds' t,
+  (forall j, In j (ids t) -> col ds' j = col ds j) -> no_rr ds t -> no_rr ds' t.
+Proof.
+  induction t as [|l IHl i r IHr]; intros H N; [exact I|].
+  destruct N as (Nl & Nr & Nc). cbn [no_rr].
+  assert (forall j, In j (ids l) -> col ds' j = col ds j) as Hl
+    by (intros j Hj; apply H; apply in_node; left; exact Hj).
+  assert (forall j, In j (ids r) -> col ds' j = col ds j) as Hr
+    by (intros j Hj; apply H; apply in_node; right; right; exact Hj).
+  split; [apply IHl; assumption|]. split; [apply IHr; assumption|].
+  rewrite (H i) by (apply in_node; right; left; reflexivity).
+  rewrite (root_col_frame ds ds' l Hl), (root_col_frame ds ds' r Hr). exact Nc.
+Qed.
+
+(* colours are kept except that the root becomes black *)
+Lemma no_rr_blacken : forall ds ds' t,
+  NoDup (ids t) -> no_rr ds t ->
+  (forall j, In j (ids t) -> match t with BN _ c _ => j <> c | BL => True end -> col ds' j = col ds j) ->
+  root_col ds' t = Black -> no_rr ds' t.
+Proof.
+  intros ds ds' [|a c b] ND N H Hb; [exact I|].
+  apply nodup_node in ND. destruct ND as (_ & _ & Hca & Hcb & _).
+  destruct N as (Na & Nb & _). cbn [no_rr root_col] in *. split; [|split].
+  - eapply no_rr_frame; [|exact Na]. intros j Hj. apply H; [apply in_node; left; exact Hj|].
+    intros ->. contradiction.
+  - eapply no_rr_frame; [|exact Nb]. intros j Hj. apply H; [apply in_node; right; right; exact Hj|].
+    intros ->. contradiction.
+  - rewrite Hb. discriminate.
+Qed.
+
+Lemma col_modN_keep : forall ds k f j,
+  (forall e, d_color (f e) = d_color e) -> col (modN ds k f) j = col ds j.
+Proof.
+  intros ds k f j H. unfold col. rewrite nthN_modN. destruct (k =? j); [|reflexivity].
+  destruct (nthN ds j); cbn [option_map]; [apply H|reflexivity].
+Qed.
+
+Lemma col_modN_other : forall ds k f j, k <> j -> col (modN ds k f) j = col ds j.
+Proof. intros. unfold col. rewrite nthN_modN_other by assumption. reflexivity. Qed.
+
+Lemma col_modN_set : forall ds k f c,
+  nthN ds k <> None -> (forall e, d_color (f e) = c) -> col (modN ds k f) k = c.
+Proof.
+  intros ds k f c Hk H. unfold col. destruct (nthN ds k) as [e|] eqn:E; [|congruence].
+  erewrite nthN_modN_same by eauto. apply H.
+Qed.
+
+Lemma col_updN_other : forall ds k v j, k <> j -> col (updN ds k v) j = col ds j.
+Proof. intros. unfold col. rewrite nthN_updN_other by assumption. reflexivity. Qed.
+
+Lemma col_recolor_other : forall ds c j, c <> j -> col (recolor_black ds c) j = col ds j.
+Proof.
+  intros. unfold recolor_black. destruct (c =? NO_STREAM); [reflexivity|]. apply col_modN_other. assumption.
+Qed.
+
+Lemma col_recolor_same : forall ds c, c <> NO_STREAM -> col (recolor_black ds c) c = Black.
+Proof.
+  intros ds c Hc. unfold recolor_black. destruct (N.eqb_spec c NO_STREAM); [contradiction|].
+  destruct (nthN ds c) as [e|] eqn:E.
+  - apply col_modN_set; [congruence|reflexivity].
+  - unfold modN. rewrite E. unfold col. rewrite E. reflexivity.
+Qed.
+
+Lemma col_relink : forall ds parent sibo x repl j, col (relink ds parent sibo x repl) j = col ds j.
+Proof.
+  intros. unfold relink. destruct sibo; apply col_modN_keep; intros e.
+  - destruct (d_left e =? x); reflexivity.
+  - reflexivity.
+Qed.
+
+Lemma remove_tbl_col1 : forall ds parent sibo x e pp pred,
+  (d_left e =? NO_STREAM) || (d_right e =? NO_STREAM) = true ->
+  let c := if d_left e =? NO_STREAM then d_right e else d_left e in
+  let ds' := remove_tbl ds parent sibo x e pp pred in
+  (forall j, j <> x -> j <> c -> col ds' j = col ds j) /\
+  (c <> NO_STREAM -> c <> x -> col ds' c = Black).
+Proof.
+  intros ds parent sibo x e pp pred C c ds'. subst ds'. unfold remove_tbl, splice_tbl. cbv zeta.
+  rewrite C. fold c. split.
+  - intros j Hx Hc. rewrite col_updN_other by congruence. rewrite col_relink.
+    apply col_recolor_other. congruence.
+  - intros Hc Hx. rewrite col_updN_other by congruence. rewrite col_relink.
+    apply col_recolor_same. exact Hc.
+Qed.
+
+Lemma remove_tbl_col2 : forall ds parent sibo x e pp pred,
+  (d_left e =? NO_STREAM) || (d_right e =? NO_STREAM) = false ->
+  let pl := match nthN ds pred with Some pe => d_left pe | None => NO_STREAM end in
+  let ds' := remove_tbl ds parent sibo x e pp pred in
+  (forall j, j <> x -> j <> pl -> j <> pred -> col ds' j = col ds j) /\
+  (pred <> x -> nthN ds pred <> None -> col ds' pred = d_color e) /\
+  (pl <> NO_STREAM -> pl <> x -> pl <> pred -> col ds' pl = Black).
+Proof.
+  intros ds parent sibo x e pp pred C pl ds'. subst ds'. unfold remove_tbl, splice_tbl. cbv zeta.
+  rewrite C. fold pl.
+  set (ds1 := recolor_black ds pl).
+  set (ds2 := if pp =? x then ds1
+              else modN (modN ds1 pp (fun ppe => set_right ppe pl)) pred
+                     (fun pe' => set_left pe' (d_left e))).
+  assert (forall j, col ds2 j = col ds1 j) as C2.
+  { intros j. unfold ds2. destruct (pp =? x); [reflexivity|].
+    rewrite col_modN_keep by reflexivity. apply col_modN_keep. reflexivity. }
+  assert (lenN ds2 = lenN ds) as L2.
+  { unfold ds2. destruct (pp =? x); rewrite ?lenN_modN; apply lenN_recolor. }
+  split; [|split].
+  - intros j Hx Hpl Hpred. rewrite col_updN_other by congruence. rewrite col_relink.
+    rewrite col_modN_other by congruence. rewrite C2. apply col_recolor_other. congruence.
+  - intros Hx Hex. rewrite col_updN_other by congruence. rewrite col_relink.
+    apply col_modN_set; [|reflexivity].
+    destruct (nthN ds pred) as [pe|] eqn:E; [|congruence].
+    apply nthN_Some_lt in E. rewrite <- L2 in E. destruct (nthN_lt_Some _ _ _ E) as [e2 He2]. congruence.
+  - intros Hne Hx Hpred. rewrite col_updN_other by congruence. rewrite col_relink.
+    rewrite col_modN_other by congruence. rewrite C2. apply col_recolor_same. exact Hne.
+Qed.
+
+Lemma pred_left_in : forall ds ll li lr pparent pp pred pe,
+  Rep ds li (BN ll li lr) -> lr <> BL -> tree_pred pparent li lr = (pp, pred) ->
+  nthN ds pred = Some pe -> d_left pe <> NO_STREAM -> In (d_left pe) (ids lr).
+Proof.
+  intros ds ll li lr pparent pp pred pe HR Hne HP Hpe Hl.
+  destruct HR as (_ & _ & e & He & _ & HRr).
+  destruct (tree_pred_in lr li pparent pp pred Hne HP) as [_ Ppred].
+  eapply rep_left_in; eauto.
+Qed.
+
+Lemma split_max_norr : forall ds ds' pl lr ll li pparent pp pred,
+  Rep ds li (BN ll li lr) -> NoDup (ids (BN ll li lr)) -> lr <> BL ->
+  tree_pred pparent li lr = (pp, pred) -> no_rr ds (BN ll li lr) ->
+  (forall pe, nthN ds pred = Some pe -> d_left pe = pl) ->
+  (forall j, In j (ids (BN ll li lr)) -> j <> pl -> j <> pred -> col ds' j = col ds j) ->
+  (pl <> NO_STREAM -> col ds' pl = Black) ->
+  no_rr ds' (fst (split_max ll li lr)) /\ root_col ds' (fst (split_max ll li lr)) = col ds li.
+Proof.
+  intros ds ds' pl. induction lr as [|a _ b c IHc];
+    intros ll li pparent pp pred HR ND Hne HP NR Kpred Kc Kpl; [congruence|].
+  pose proof HR as HR0.
+  cbn [tree_pred] in HP.
+  destruct HR as (_ & Hine & e & He & HL & HRr).
+  pose proof HRr as HRr0.
+  destruct HRr as (Eb & Hbne & eb & Heb & HLa & HRc).
+  pose proof ND as ND0.
+  apply nodup_node in ND. destruct ND as (NDl & NDr & Hil & Hir & Hlr).
+  pose proof NDr as NDr0. apply nodup_node in NDr. destruct NDr as (NDa & NDc & Hba & Hbc & Hac).
+  destruct NR as (NRl & NRr & NRc). pose proof NRr as NRr0. destruct NRr as (NRa & NRcc & NRb).
+  (* where pl lives *)
+  assert (pl <> NO_STREAM -> In pl (ids (BN a b c))) as Plin.
+  { intros Hpl. destruct (tree_pred_in (BN a b c) li pparent pp pred) as [_ Ppred]; [discriminate|exact HP|].
+    destruct (rep_ids _ _ _ HRr0 pred Ppred) as [_ Hlt].
+    destruct (nthN_lt_Some _ _ _ Hlt) as [pe Hpe].
+    rewrite <- (Kpred pe Hpe) in *.
+    eapply (pred_left_in ds ll li (BN a b c) pparent pp pred); eauto; discriminate. }
+  assert (In pred (ids (BN a b c))) as Ppred0.
+  { destruct (tree_pred_in (BN a b c) li pparent pp pred) as [_ P]; [discriminate|exact HP|exact P]. }
+  assert (forall j, In j (ids ll) -> col ds' j = col ds j) as Cll.
+  { intros j Hj. apply Kc; [apply in_node; left; exact Hj| |].
+    - intros ->. destruct (N.eq_dec pl NO_STREAM) as [E|E].
+      + destruct (rep_ids _ _ _ HL pl Hj) as [Hc _]. contradiction.
+      + exact (Hlr _ Hj (Plin E)).
+    - intros ->. exact (Hlr _ Hj Ppred0). }
+  assert (col ds' li = col ds li) as Cli.
+  { apply Kc; [apply in_node; right; left; reflexivity| |].
+    - intros ->. destruct (N.eq_dec pl NO_STREAM) as [E|E]; [congruence|]. exact (Hir (Plin E)).
+    - intros ->. exact (Hir Ppred0). }
+  destruct c as [|c1 c2 c3].
+  - cbn [tree_pred] in HP. injection HP as <- <-. cbn [split_max fst snd root_col]. split; [|exact Cli].
+    assert (d_left eb = pl) as Epl by (apply Kpred; exact Heb).
+    assert (no_rr ds' a /\ root_col ds' a = Black) as [NA RA].
+    { destruct a as [|a1 a2 a3]; [split; [exact I|reflexivity]|].
+      destruct HLa as (Ea & Hane & _). rewrite Epl in Ea. subst a2.
+      assert (col ds' pl = Black) as Hb by (apply Kpl; exact Hane).
+      split; [|exact Hb]. apply (no_rr_blacken ds ds'); [exact NDa|exact NRa| |exact Hb].
+      intros j Hj Hjne. apply Kc; [apply in_node; right; right; apply in_node; left; exact Hj|exact Hjne|].
+      intros ->. contradiction. }
+    cbn [no_rr]. split; [eapply no_rr_frame; [exact Cll|exact NRl]|]. split; [exact NA|].
+    rewrite Cli. intros Hred. destruct (NRc Hred) as [B1 _]. split; [|exact RA].
+    rewrite (root_col_frame ds ds' ll Cll). exact B1.
+  - assert (Rep ds b (BN a b (BN c1 c2 c3))) as HRb.
+    { split; [reflexivity|]. split; [exact Hbne|]. exists eb. split; [exact Heb|]. split; [exact HLa|exact HRc]. }
+    destruct (IHc a b li pp pred HRb NDr0) as [IH1 IH2]; [discriminate|exact HP|exact NRr0|exact Kpred| |exact Kpl|].
+    { intros j Hj. apply Kc. apply in_node. right. right. exact Hj. }
+    change (split_max ll li (BN a b (BN c1 c2 c3)))
+      with (let (r', m) := split_max a b (BN c1 c2 c3) in (BN ll li r', m)).
+    destruct (split_max a b (BN c1 c2 c3)) as [r' m]. cbn [fst snd] in *.
+    cbn [root_col]. split; [|exact Cli].
+    cbn [no_rr]. split; [eapply no_rr_frame; [exact Cll|exact NRl]|]. split; [exact IH1|].
+    rewrite Cli. intros Hred. destruct (NRc Hred) as [B1 B2]. split.
+    + rewrite (root_col_frame ds ds' ll Cll). exact B1.
+    + rewrite IH2. exact B2.
+Qed.
+
+Lemma kids_norr : forall ds nm x l r t,
+  no_rr ds t -> bst_find ds nm t = Some x -> kids ds nm t = (l, r) -> no_rr ds (BN l x r).
+Proof.
+  intros ds nm x l r. induction t as [|tl IHl i tr IHr]; intros NR HF HK; [discriminate HF|].
+  pose proof NR as NR0. destruct NR as (Nl & Nr & _).
+  cbn [bst_find kids] in HF, HK. destruct (cmp_names nm (nm_of ds i)).
+  - injection HF as <-. injection HK as <- <-. exact NR0.
+  - auto.
+  - auto.
+Qed.
+
+Lemma splice_norr : forall ds parent sibo x e l r pp pred,
+  nthN ds x = Some e -> x <> NO_STREAM ->
+  Rep ds (d_left e) l -> Rep ds (d_right e) r -> NoDup (ids (BN l x r)) ->
+  (d_left e <> NO_STREAM -> d_right e <> NO_STREAM ->
+   exists fuel, find_pred fuel ds x (d_left e) = Ok (pp, pred)) ->
+  no_rr ds (BN l x r) ->
+  let ds' := remove_tbl ds parent sibo x e pp pred in
+  no_rr ds' (join l r) /\ (d_color e = Black -> root_col ds' (join l r) = Black).
+Proof.
+  intros ds parent sibo x e l r pp pred He Hxne HL HR ND Hfp NR ds'.
+  pose proof ND as ND0.
+  apply nodup_node in ND. destruct ND as (NDl & NDr & Hxl & Hxr & Hlr).
+  destruct NR as (NRl & NRr & NRx). unfold col in NRx. rewrite He in NRx.
+  destruct l as [|ll li lr].
+  - (* no left child *)
+    cbn [Rep] in HL.
+    assert ((d_left e =? NO_STREAM) || (d_right e =? NO_STREAM) = true) as C
+      by (rewrite HL, N.eqb_refl; reflexivity).
+    destruct (remove_tbl_col1 ds parent sibo x e pp pred C) as [K1 K2].
+    rewrite HL, N.eqb_refl in K1, K2. fold ds' in K1, K2. cbn [join].
+    destruct r as [|rl ri rr]; [split; [exact I|reflexivity]|].
+    destruct HR as (Er & Hrine & _). rewrite Er in *.
+    assert (ri <> x) as Hrx by (intros ->; apply Hxr; apply in_node; right; left; reflexivity).
+    assert (col ds' ri = Black) as Hb by (apply K2; assumption).
+    split; [|intros _; exact Hb].
+    apply (no_rr_blacken ds ds'); [exact NDr|exact NRr| |exact Hb].
+    intros j Hj Hjne. apply K1; [intros ->; contradiction|exact Hjne].
+  - pose proof HL as HL0. destruct HL as (El & Hline & el & Hel & HLl & HLr). rewrite El in *.
+    assert (li <> x) as Hlx by (intros ->; apply Hxl; apply in_node; right; left; reflexivity).
+    destruct r as [|rl ri rr].
+    + (* no right child *)
+      cbn [Rep] in HR.
+      assert ((li =? NO_STREAM) || (d_right e =? NO_STREAM) = true) as C
+        by (rewrite HR, N.eqb_refl; apply orb_true_r).
+      destruct (remove_tbl_col1 ds parent sibo x e pp pred) as [K1 K2]; [rewrite El; exact C|].
+      rewrite El in K1, K2. destruct (N.eqb_spec li NO_STREAM); [contradiction|].
+      fold ds' in K1, K2. cbn [join].
+      assert (col ds' li = Black) as Hb by (apply K2; assumption).
+      split; [|intros _; exact Hb].
+      apply (no_rr_blacken ds ds'); [exact NDl|exact NRl| |exact Hb].
+      intros j Hj Hjne. apply K1; [intros ->; contradiction|exact Hjne].
+    + (* two children *)
+      pose proof HR as HR0. destruct HR as (Er & Hrine & er & Her & HRl & HRr). rewrite Er in *.
+      assert ((d_left e =? NO_STREAM) || (d_right e =? NO_STREAM) = false) as C.
+      { rewrite El, Er. destruct (N.eqb_spec li NO_STREAM); [contradiction|].
+        destruct (N.eqb_spec ri NO_STREAM); [contradiction|]. reflexivity. }
+      destruct (remove_tbl_col2 ds parent sibo x e pp pred C) as (K1 & K2 & K3).
+      fold ds' in K1, K2, K3.
+      destruct (Hfp Hline Hrine) as [fuel Hf]. apply (find_pred_spec _ _ _ _ _ _ _ _ HL0) in Hf.
+      destruct (tree_pred_in2 _ _ _ _ _ Hf) as [_ Ppred].
+      assert (In pred (ids (BN ll li lr))) as Ppred'.
+      { apply in_node. destruct Ppred as [<-|P]; [right; left; reflexivity|right; right; exact P]. }
+      assert (pred <> x) as Hpx by (intros ->; contradiction).
+      destruct (rep_ids _ _ _ HL0 pred Ppred') as [Hprne Hplt].
+      destruct (nthN_lt_Some _ _ _ Hplt) as [pe Hpe]. rewrite Hpe in K1, K3.
+      assert (col ds' pred = d_color e) as Cpred by (apply K2; [exact Hpx|congruence]).
+      assert (d_left pe <> NO_STREAM -> In (d_left pe) (ids (BN ll li lr)) /\ d_left pe <> pred) as Plin.
+      { intros Hpl. pose proof (rep_left_in _ _ _ _ _ HL0 Ppred' Hpe Hpl) as Hin. split; [exact Hin|].
+        (* the left child of pred is not pred: it lies in pred's own left subtree *)
+        intros Heq.
+        assert (forall t root, Rep ds root t -> NoDup (ids t) -> In pred (ids t) -> False) as Loop.
+        { induction t as [|a IHa b c IHc]; intros root HRt NDt Hint; [contradiction|].
+          destruct HRt as (_ & _ & eb & Heb & HLa & HRc).
+          apply nodup_node in NDt. destruct NDt as (NDa & NDc & Hba & Hbc & Hac).
+          apply in_node in Hint. destruct Hint as [Hint|[->|Hint]]; eauto.
+          assert (eb = pe) by congruence. subst eb. rewrite Heq in HLa.
+          destruct (rep_some _ _ _ HLa Hprne) as (a1 & a2 & ->).
+          apply Hba. apply in_node. right. left. reflexivity. }
+        exact (Loop _ _ HL0 NDl Ppred'). }
+      assert (forall j, In j (ids (BN rl ri rr)) -> col ds' j = col ds j) as Cr.
+      { intros j Hj. apply K1.
+        - intros ->. contradiction.
+        - intros ->. destruct (N.eq_dec (d_left pe) NO_STREAM) as [E|E].
+          + destruct (rep_ids _ _ _ HR0 _ Hj). congruence.
+          + destruct (Plin E) as [Hin _]. exact (Hlr _ Hin Hj).
+        - intros ->. exact (Hlr _ Ppred' Hj). }
+      assert (root_col ds' (BN rl ri rr) = root_col ds (BN rl ri rr)) as RCr
+        by (apply root_col_frame; exact Cr).
+      assert (no_rr ds' (BN rl ri rr)) as NRr' by (eapply no_rr_frame; [exact Cr|exact NRr]).
+      apply nodup_node in NDl. destruct NDl as (NDll & NDlr & Hlil & Hlir & Hllr).
+      destruct lr as [|q1 q2 q3].
+      * (* the left child is the predecessor *)
+        cbn [tree_pred] in Hf. injection Hf as <- <-. cbn [join split_max].
+        assert (pe = el) by congruence. subst pe.
+        assert (no_rr ds' ll /\ root_col ds' ll = Black) as [NA RA].
+        { destruct ll as [|a1 a2 a3]; [split; [exact I|reflexivity]|].
+          destruct HLl as (Ea & Hane & _).
+          destruct (Plin ltac:(congruence)) as [_ Hne2].
+          assert (col ds' a2 = Black) as Hb.
+          { rewrite <- Ea. apply K3; [congruence| |exact Hne2].
+            rewrite Ea. intros ->. apply Hxl. apply in_node. left. apply in_node. right. left. reflexivity. }
+          split; [|exact Hb]. apply (no_rr_blacken ds ds'); [exact NDll|apply NRl| |exact Hb].
+          intros j Hj Hjne. apply K1.
+          - intros ->. apply Hxl. apply in_node. left. exact Hj.
+          - congruence.
+          - intros ->. contradiction. }
+        cbn [no_rr root_col]. rewrite Cpred. split.
+        -- split; [exact NA|]. split; [exact NRr'|]. intros Hred.
+           split; [exact RA|]. change (col ds' ri) with (root_col ds' (BN rl ri rr)).
+           rewrite RCr. apply NRx. exact Hred.
+        -- intros Hb. exact Hb.
+      * destruct (split_max_norr ds ds' (d_left pe) (BN q1 q2 q3) ll li x pp pred)
+          as [S1 S2]; [exact HL0| |discriminate|exact Hf|exact NRl| | | |].
+        { apply nodup_node. repeat split; assumption. }
+        { intros pe0 Hpe0. congruence. }
+        { intros j Hj J1 J2. apply K1; [intros ->; contradiction|exact J1|exact J2]. }
+        { intros Hpl. destruct (Plin Hpl) as [Hin Hne2]. apply K3; [exact Hpl| |exact Hne2].
+          intros Hc. rewrite Hc in Hin. contradiction. }
+        assert (snd (split_max ll li (BN q1 q2 q3)) = pred) as Sm.
+        { clear - Hf. revert ll li x Hf. generalize (BN q1 q2 q3) as t.
+          induction t as [|a _ b c IHc]; intros ll li x Hf; cbn [tree_pred split_max] in *.
+          - injection Hf as _ <-. reflexivity.
+          - specialize (IHc a b li Hf). destruct (split_max a b c) as [r' m]. exact IHc. }
+        cbn [join]. destruct (split_max ll li (BN q1 q2 q3)) as [l' m]. cbn [fst snd] in *. subst m.
+        cbn [no_rr root_col]. rewrite Cpred. split.
+        -- split; [exact S1|]. split; [exact NRr'|]. intros Hred. split.
+           ++ rewrite S2. apply (NRx Hred).
+           ++ change (col ds' ri) with (root_col ds' (BN rl ri rr)). rewrite RCr. apply NRx. exact Hred.
+        -- intros Hb. exact Hb.
+Qed.
+
+Lemma ctx_norr : forall ds ds' nm x l r t root,
+  Rep ds root t -> NoDup (ids t) -> bst_find ds nm t = Some x -> kids ds nm t = (l, r) ->
+  no_rr ds t ->
+  (forall j, In j (ids t) -> ~ In j (ids (BN l x r)) -> col ds' j = col ds j) ->
+  no_rr ds' (join l r) -> (col ds x = Black -> root_col ds' (join l r) = Black) ->
+  no_rr ds' (bst_remove x t) /\
+  (root_col ds t = Black -> root_col ds' (bst_remove x t) = Black).
+Proof.
+  intros ds ds' nm x l r.
+  induction t as [|tl IHl i tr IHr]; intros root HR ND HF HK NR K NJ BJ; [discriminate HF|].
+  destruct HR as (E & Hne & e & He & HL & HRr). subst root.
+  apply nodup_node in ND. destruct ND as (NDl & NDr & Hil & Hir & Hlr).
+  destruct NR as (NRl & NRr & NRc).
+  cbn [bst_find kids] in HF, HK. cbn [bst_remove root_col].
+  destruct (cmp_names nm (nm_of ds i)) eqn:C.
+  - injection HF as <-. injection HK as <- <-. rewrite N.eqb_refl. split; assumption.
+  - pose proof (bst_find_sound _ _ _ _ HF) as [Hxl _].
+    pose proof (kids_rep _ _ _ _ _ _ _ HL HF HK) as (_ & KIl & _).
+    destruct (N.eqb_spec i x) as [->|Hix]; [contradiction|].
+    rewrite (bst_remove_notin x tr) by (intros Hc; exact (Hlr _ Hxl Hc)).
+    destruct (IHl (d_left e) HL NDl HF HK NRl) as [I1 I2]; [|exact NJ|exact BJ|].
+    { intros j Hj Hn. apply K; [apply in_node; left; exact Hj|exact Hn]. }
+    assert (forall j, In j (ids tr) -> col ds' j = col ds j) as Ctr.
+    { intros j Hj. apply K; [apply in_node; right; right; exact Hj|].
+      intros Hc. exact (Hlr _ (KIl _ Hc) Hj). }
+    assert (col ds' i = col ds i) as Ci.
+    { apply K; [apply in_node; right; left; reflexivity|]. intros Hc. exact (Hil (KIl _ Hc)). }
+    cbn [no_rr root_col]. rewrite Ci. split; [|auto].
+    split; [exact I1|]. split; [eapply no_rr_frame; [exact Ctr|exact NRr]|].
+    intros Hred. destruct (NRc Hred) as [B1 B2]. split; [auto|].
+    rewrite (root_col_frame ds ds' tr Ctr). exact B2.
+  - pose proof (bst_find_sound _ _ _ _ HF) as [Hxr _].
+    pose proof (kids_rep _ _ _ _ _ _ _ HRr HF HK) as (_ & KIr & _).
+    destruct (N.eqb_spec i x) as [->|Hix]; [contradiction|].
+    rewrite (bst_remove_notin x tl) by (intros Hc; exact (Hlr _ Hc Hxr)).
+    destruct (IHr (d_right e) HRr NDr HF HK NRr) as [I1 I2]; [|exact NJ|exact BJ|].
+    { intros j Hj Hn. apply K; [apply in_node; right; right; exact Hj|exact Hn]. }
+    assert (forall j, In j (ids tl) -> col ds' j = col ds j) as Ctl.
+    { intros j Hj. apply K; [apply in_node; left; exact Hj|].
+      intros Hc. exact (Hlr _ Hj (KIr _ Hc)). }
+    assert (col ds' i = col ds i) as Ci.
+    { apply K; [apply in_node; right; left; reflexivity|]. intros Hc. exact (Hir (KIr _ Hc)). }
+    cbn [no_rr root_col]. rewrite Ci. split; [|auto].
+    split; [eapply no_rr_frame; [exact Ctl|exact NRl]|]. split; [exact I1|].
+    intros Hred. destruct (NRc Hred) as [B1 B2]. split; [|auto].
+    rewrite (root_col_frame ds ds' tl Ctl). exact B1.
+Qed.
+
+Theorem remove_no_red_red : forall parent nm s s' u p t x,
+  remove_dir_entry parent nm s = (s', Ok u) ->
+  nthN (dirs s) parent = Some p -> Rep (dirs s) (d_child p) t -> NoDup (ids t) ->
+  bst_find (dirs s) nm t = Some x ->
+  no_rr (dirs s) t -> no_rr (dirs s') (bst_remove x t).
+Proof.
+  intros parent nm s s' u p t x H Hp HR ND HF NR.
+  destruct (remove_core _ _ _ _ _ _ _ _ H Hp HR ND HF)
+    as (e & pp & pred & l & r & He & Hc & Hxp & HK & KR & KND & KI & Hds & Hfp & Hroot & _).
+  pose proof (kids_norr _ _ _ _ _ _ NR HF HK) as NRx.
+  pose proof KR as KR0. destruct KR as (_ & Hxne & e0 & He0 & HLl & HRr).
+  assert (e0 = e) by congruence. subst e0.
+  destruct (splice_norr (dirs s) parent (lastN (anc (dirs s) nm t)) x e l r pp pred
+              He Hxne HLl HRr KND) as [SN SB]; [|exact NRx|].
+  { intros A B. eexists. apply Hfp; assumption. }
+  rewrite <- Hds in SN, SB.
+  eapply (ctx_norr (dirs s) (dirs s') nm x l r t); eauto.
+  - (* colours outside the subtree of x *)
+    intros j Hj Hn. rewrite Hds.
+    assert (j <> x) as Hjx by (intros ->; apply Hn; apply in_node; right; left; reflexivity).
+    (* links of context nodes may change, colours may not *)
+    assert (forall j, ~ In j (ids l ++ ids r) -> j <> x ->
+              col (remove_tbl (dirs s) parent (lastN (anc (dirs s) nm t)) x e pp pred) j = col (dirs s) j) as CC.
+    { intros k Hk Hkx. unfold remove_tbl.
+      pose proof (splice_untouched (dirs s) x e pp pred k) as SU.
+      destruct (splice_tbl (dirs s) x e pp pred) as [ds1 repl]. cbn [fst] in SU.
+      rewrite col_updN_other by congruence. rewrite col_relink. unfold col. rewrite SU; [reflexivity|].
+      intros Hc'. apply Hk. eapply splice_touched_in; [exact He|exact HLl|exact HRr| |exact Hc'].
+      intros A B. eexists. apply Hfp; assumption. }
+    apply CC; [|exact Hjx]. intros Hc'. apply Hn. apply in_node. apply in_app_or in Hc'. tauto.
+  - intros Hb. apply SB. unfold col in Hb. rewrite He in Hb. exact Hb.
+Qed.
+
+(* ================================================================== *)
+Print Assumptions rep_functional.
+Print Assumptions rep_frame.
+Print Assumptions find_in_siblings_spec.
+Print Assumptions bst_find_iff.
+Print Assumptions find_in_siblings_total.
+Print Assumptions remove_ids_stable_raw.
+Print Assumptions remove_ids_stable.
+Print Assumptions remove_untouched_exact.
+Print Assumptions remove_rep.
+Print Assumptions remove_inorder.
+Print Assumptions remove_lookup.
+Print Assumptions remove_no_red_red.
+Print Assumptions insert_rep.
+Print Assumptions insert_fresh.
+Print Assumptions entries_nonrec_inorder.
